@@ -727,6 +727,1367 @@ Proof.
   exists [97;98;45;62;46;46;46;97;98], [[2;3]]%Z. split; vm_compute; reflexivity.
 Qed.
 
+(* ================================================================== *)
+(* general theorems: model parser = NumpySpec for ALL inputs           *)
+
+
+Lemma unlex_cons t ts : unlex (t :: ts) = unlex1 t ++ unlex ts.
+Proof. reflexivity. Qed.
+
+Lemma is_letter_not_reserved c : is_letter c = true -> not_reserved c.
+Proof. unfold not_reserved, is_letter, c_space, c_comma, c_dash, c_dot, c_gt. lia. Qed.
+
+(* --- the lexer: numpy accepts  =>  the blank-free string is the rendering of the tokens --- *)
+Lemma np_lex_sound n : forall s ts, length s <= n -> np_lex s = Some ts ->
+  strip_spaces s = unlex ts /\ Forall tok_ok ts.
+Proof.
+  induction n as [|n IH]; intros s ts Hn.
+  - destruct s; [|cbn in Hn; lia]. cbn. intro H; inversion H; subst. split; [reflexivity|constructor].
+  - destruct s as [|x r]; [cbn; intro H; inversion H; subst; split; [reflexivity|constructor]|].
+    cbn in Hn. cbn [np_lex]. unfold strip_spaces. cbn [filter]. fold (strip_spaces r).
+    destruct (Nat.eqb x c_space) eqn:E1.
+    + cbn. intro H. apply IH; [lia|exact H].
+    + cbn [negb]. destruct (Nat.eqb x c_comma) eqn:E2.
+      * destruct (np_lex r) as [ts'|] eqn:L; [|discriminate]. cbn. intro H; inversion H; subst.
+        destruct (IH r ts' ltac:(lia) L) as [S1 S2]. apply Nat.eqb_eq in E2. subst x.
+        split; [rewrite unlex_cons; cbn; f_equal; exact S1|constructor; [exact I|exact S2]].
+      * destruct (is_letter x) eqn:E3.
+        -- destruct (np_lex r) as [ts'|] eqn:L; [|discriminate]. cbn. intro H; inversion H; subst.
+           destruct (IH r ts' ltac:(lia) L) as [S1 S2].
+           split; [rewrite unlex_cons; cbn; f_equal; exact S1|constructor; [exact (is_letter_not_reserved x E3)|exact S2]].
+        -- destruct r as [|y r']; [discriminate|].
+           destruct (Nat.eqb x c_dash && Nat.eqb y c_gt) eqn:E4.
+           ++ destruct (np_lex r') as [ts'|] eqn:L; [|discriminate]. cbn [ocons]. intro H; inversion H; subst.
+              cbn in Hn. destruct (IH r' ts' ltac:(lia) L) as [S1 S2].
+              apply andb_true_iff in E4. destruct E4 as [A B]. apply Nat.eqb_eq in A, B. subst x y.
+              split; [|constructor; [exact I|exact S2]].
+              rewrite unlex_cons. cbn. f_equal. f_equal. exact S1.
+           ++ destruct r' as [|z r'']; [discriminate|].
+              destruct (dots3 x y z) eqn:E5; [|discriminate].
+              destruct (np_lex r'') as [ts'|] eqn:L; [|discriminate]. cbn [ocons]. intro H; inversion H; subst.
+              cbn in Hn. destruct (IH r'' ts' ltac:(lia) L) as [S1 S2].
+              unfold dots3 in E5. apply andb_true_iff in E5. destruct E5 as [E5 C].
+              apply andb_true_iff in E5. destruct E5 as [A B]. apply Nat.eqb_eq in A, B, C. subst x y z.
+              split; [|constructor; [exact I|exact S2]].
+              rewrite unlex_cons. cbn. f_equal. f_equal. f_equal. exact S1.
+Qed.
+
+Lemma np_lex_sound_all eq ts : np_lex eq = Some ts -> strip_spaces eq = unlex ts /\ Forall tok_ok ts.
+Proof. exact (np_lex_sound (length eq) eq ts (le_n _)). Qed.
+
+(* --- splitting --- *)
+Lemma tsplit_nonempty sep l : tsplit sep l <> [].
+Proof. destruct l as [|t r]; cbn; [discriminate|]. destruct (sep t); [discriminate|]. destruct (tsplit sep r); discriminate. Qed.
+
+Lemma split_arrow_cons x rest : x <> c_dash -> split_arrow (x :: rest) = cons_head x (split_arrow rest).
+Proof.
+  intro H. destruct rest as [|y r']; [reflexivity|].
+  cbn [split_arrow]. replace (Nat.eqb x c_dash) with false by (symmetry; apply Nat.eqb_neq; exact H). reflexivity.
+Qed.
+
+Lemma map_unlex_cons_head c h tl : map unlex ((TL c :: h) :: tl) = cons_head c (map unlex (h :: tl)).
+Proof. reflexivity. Qed.
+
+Lemma split_arrow_unlex ts : Forall tok_ok ts ->
+  split_arrow (unlex ts) = map unlex (tsplit is_arrow ts).
+Proof.
+  induction 1 as [|t ts Ht Hts IH]; [reflexivity|].
+  rewrite unlex_cons. destruct t as [c| | |]; cbn [unlex1 tsplit is_arrow app].
+  - destruct Ht as [_ [_ [D _]]].
+    rewrite split_arrow_cons by exact D. rewrite IH.
+    destruct (tsplit is_arrow ts) as [|h tl] eqn:E; [exfalso; eapply tsplit_nonempty; exact E|]. reflexivity.
+  - rewrite !split_arrow_cons by (unfold c_dot, c_dash; lia). rewrite IH.
+    destruct (tsplit is_arrow ts) as [|h tl] eqn:E; [exfalso; eapply tsplit_nonempty; exact E|]. reflexivity.
+  - rewrite split_arrow_cons by (unfold c_comma, c_dash; lia). rewrite IH.
+    destruct (tsplit is_arrow ts) as [|h tl] eqn:E; [exfalso; eapply tsplit_nonempty; exact E|]. reflexivity.
+  - cbn [split_arrow]. rewrite !Nat.eqb_refl. cbn. rewrite IH. reflexivity.
+Qed.
+
+Definition no_arrow (t : tok) : Prop := is_arrow t = false.
+Lemma tsplit_arrow_no_arrow ts : Forall (Forall no_arrow) (tsplit is_arrow ts).
+Proof.
+  induction ts as [|t ts IH]; cbn; [repeat constructor|].
+  destruct (is_arrow t) eqn:E; [constructor; [constructor|exact IH]|].
+  destruct (tsplit is_arrow ts) as [|h tl]; [repeat constructor; exact E|].
+  inversion IH; subst. constructor; [constructor; assumption|assumption].
+Qed.
+
+Lemma split_comma_unlex ts : Forall tok_ok ts -> Forall no_arrow ts ->
+  split_char c_comma (unlex ts) = map unlex (tsplit is_comma ts).
+Proof.
+  induction 1 as [|t ts Ht Hts IH]; intro Hna; [reflexivity|].
+  inversion Hna as [|? ? Hn1 Hn2]; subst. specialize (IH Hn2).
+  rewrite unlex_cons. destruct t as [c| | |]; cbn [unlex1 tsplit is_comma app split_char].
+  - destruct Ht as [_ [D _]].
+    replace (Nat.eqb c c_comma) with false by (symmetry; apply Nat.eqb_neq; exact D).
+    rewrite IH. destruct (tsplit is_comma ts) as [|h tl] eqn:E; [exfalso; eapply tsplit_nonempty; exact E|]. reflexivity.
+  - cbn. rewrite IH. destruct (tsplit is_comma ts) as [|h tl] eqn:E; [exfalso; eapply tsplit_nonempty; exact E|]. reflexivity.
+  - rewrite Nat.eqb_refl. rewrite IH. reflexivity.
+  - discriminate Hn1.
+Qed.
+
+(* --- one term (only letters and ellipses) --- *)
+Definition subst_toks (rep : str) (t : list tok) : str :=
+  concat (map (fun x => match x with TL c => [c] | TEll => rep | _ => [] end) t).
+
+Lemma only_labels_cons x t : only_labels (x :: t) = true ->
+  (match x with TL _ | TEll => True | _ => False end) /\ only_labels t = true.
+Proof. unfold only_labels. cbn. destruct x; cbn; intro H; try discriminate; auto. Qed.
+
+Lemma n_ell_cons x t : n_ell (x :: t) = (if is_ell x then 1 else 0) + n_ell t.
+Proof. unfold n_ell. cbn. destruct (is_ell x); reflexivity. Qed.
+Lemma letters_of_cons x t : letters_of (x :: t) = (match x with TL c => [c] | _ => [] end) ++ letters_of t.
+Proof. reflexivity. Qed.
+
+Lemma count_dot_unlex t : only_labels t = true -> Forall tok_ok t -> count c_dot (unlex t) = 3 * n_ell t.
+Proof.
+  induction t as [|x t IH]; intros Ho Hk; [reflexivity|].
+  destruct (only_labels_cons _ _ Ho) as [Hx Ho']. inversion Hk as [|? ? K1 K2]; subst.
+  rewrite unlex_cons, count_app, n_ell_cons, (IH Ho' K2). destruct x as [c| | |]; try contradiction; cbn.
+  - destruct K1 as [_ [_ [_ [D _]]]].
+    replace (Nat.eqb c c_dot) with false by (symmetry; apply Nat.eqb_neq; exact D). lia.
+  - lia.
+Qed.
+
+Lemma has_ell_cons_other c rest : c <> c_dot -> has_ell (c :: rest) = has_ell rest.
+Proof.
+  intro H. cbn [has_ell]. destruct rest as [|y [|z r]]; try reflexivity.
+  unfold dots3. replace (Nat.eqb c c_dot) with false by (symmetry; apply Nat.eqb_neq; exact H). reflexivity.
+Qed.
+Lemma has_ell_unlex t : only_labels t = true -> Forall tok_ok t -> 1 <= n_ell t -> has_ell (unlex t) = true.
+Proof.
+  induction t as [|x t IH]; intros Ho Hk Hn; [cbn in Hn; lia|].
+  destruct (only_labels_cons _ _ Ho) as [Hx Ho']. inversion Hk as [|? ? K1 K2]; subst.
+  rewrite unlex_cons. rewrite n_ell_cons in Hn. destruct x as [c| | |]; try contradiction; cbn [unlex1 app].
+  - destruct K1 as [_ [_ [_ [D _]]]].
+    rewrite has_ell_cons_other by exact D. apply IH; auto.
+  - reflexivity.
+Qed.
+
+Lemma check_ellipsis_unlex t : only_labels t = true -> Forall tok_ok t ->
+  check_ellipsis (unlex t) = match n_ell t with 0 => Some false | 1 => Some true | _ => None end.
+Proof.
+  intros Ho Hk. unfold check_ellipsis. rewrite (count_dot_unlex t Ho Hk).
+  destruct (n_ell t) as [|[|k]] eqn:E; [reflexivity| |].
+  - cbn. rewrite has_ell_unlex; auto. lia.
+  - replace (Nat.eqb (3 * S (S k)) 0) with false by (symmetry; apply Nat.eqb_neq; lia).
+    replace (Nat.eqb (3 * S (S k)) 3) with false by (symmetry; apply Nat.eqb_neq; lia). reflexivity.
+Qed.
+
+Lemma length_unlex t : only_labels t = true -> length (unlex t) = length (letters_of t) + 3 * n_ell t.
+Proof.
+  induction t as [|x t IH]; intros Ho; [reflexivity|].
+  destruct (only_labels_cons _ _ Ho) as [Hx Ho'].
+  rewrite unlex_cons, app_length, n_ell_cons, letters_of_cons, app_length, (IH Ho').
+  destruct x; try contradiction; cbn; lia.
+Qed.
+
+Lemma replace_ell_cons_other rep c rest : c <> c_dot -> replace_ell rep (c :: rest) = c :: replace_ell rep rest.
+Proof.
+  intro H. cbn [replace_ell]. destruct rest as [|y [|z r]]; try reflexivity.
+  unfold dots3. replace (Nat.eqb c c_dot) with false by (symmetry; apply Nat.eqb_neq; exact H). reflexivity.
+Qed.
+Lemma replace_ell_unlex rep t : only_labels t = true -> Forall tok_ok t ->
+  replace_ell rep (unlex t) = subst_toks rep t.
+Proof.
+  induction t as [|x t IH]; intros Ho Hk; [reflexivity|].
+  destruct (only_labels_cons _ _ Ho) as [Hx Ho']. inversion Hk as [|? ? K1 K2]; subst.
+  rewrite unlex_cons. unfold subst_toks. cbn [map concat]. fold (subst_toks rep t).
+  destruct x as [c| | |]; try contradiction; cbn [unlex1 app].
+  - destruct K1 as [_ [_ [_ [D _]]]].
+    rewrite replace_ell_cons_other by exact D. rewrite IH; auto.
+  - cbn [replace_ell]. unfold dots3. rewrite !Nat.eqb_refl. cbn. rewrite IH; auto.
+Qed.
+
+Lemma unlex_no_ell t : only_labels t = true -> n_ell t = 0 -> forall rep, unlex t = subst_toks rep t.
+Proof.
+  induction t as [|x t IH]; intros Ho Hn rep; [reflexivity|].
+  destruct (only_labels_cons _ _ Ho) as [Hx Ho']. rewrite n_ell_cons in Hn.
+  rewrite unlex_cons. unfold subst_toks. cbn [map concat]. fold (subst_toks rep t).
+  destruct x; try contradiction; cbn in *; [|lia]. f_equal. apply IH; auto.
+Qed.
+
+(* the specification's expansion of a term, renamed by rho, is the substitution of the symbols *)
+Lemma skipn_nth_cons {A} (d : A) i l : i < length l -> skipn i l = nth i l d :: skipn (S i) l.
+Proof.
+  revert i. induction l as [|x l IH]; intros i H; cbn in H; [lia|].
+  destruct i; [reflexivity|]. cbn. apply IH. lia.
+Qed.
+Lemma rho_bdims E nb : nb <= length E -> map (rho E) (bdims nb) = skipn (length E - nb) E.
+Proof.
+  unfold bdims. induction nb as [|nb IH]; intro H.
+  - cbn. rewrite Nat.sub_0_r, skipn_all. reflexivity.
+  - rewrite seq_S, rev_app_distr. cbn [rev app map plus]. rewrite IH by lia.
+    rewrite (skipn_nth_cons 0 (length E - S nb)) by lia.
+    replace (S (length E - S nb)) with (length E - nb) by lia.
+    cbn [rho]. f_equal. f_equal. lia.
+Qed.
+Lemma rho_expand_toks E nb t : only_labels t = true -> nb <= length E ->
+  map (rho E) (expand_toks nb t) = subst_toks (skipn (length E - nb) E) t.
+Proof.
+  intros Ho Hnb. unfold expand_toks, subst_toks. rewrite concat_map, map_map. f_equal.
+  induction t as [|x t IH]; [reflexivity|].
+  destruct (only_labels_cons _ _ Ho) as [Hx Ho']. cbn [map]. rewrite (IH Ho'). f_equal.
+  destruct x; try contradiction; [reflexivity|]. apply rho_bdims. exact Hnb.
+Qed.
+(* a term without ellipsis does not depend on nb *)
+Lemma expand_toks_no_ell nb t : n_ell t = 0 -> expand_toks nb t = expand_toks 0 t.
+Proof.
+  unfold expand_toks. induction t as [|x t IH]; intro H; [reflexivity|].
+  rewrite n_ell_cons in H. cbn [map concat]. rewrite IH by lia. destruct x; cbn in *; try reflexivity. lia.
+Qed.
+
+(* --- all operands: the first pass (ell_needs), the number of ellipsis symbols, the second pass --- *)
+Definition need_of (t : list tok) (nb : nat) : option Z :=
+  if Nat.eqb (n_ell t) 0 then None else Some (Z.of_nat nb).
+Definition needs_of (ops : list (list tok)) (nbs : list nat) : list (option Z) :=
+  map (fun tn => need_of (fst tn) (snd tn)) (combine ops nbs).
+
+Lemma np_operand_nb_spec t rank nb : np_operand_nb t rank = Some nb ->
+  (n_ell t = 0 /\ nb = 0 /\ rank = length (letters_of t)) \/
+  (n_ell t = 1 /\ length (letters_of t) <= rank /\ nb = rank - length (letters_of t)).
+Proof.
+  unfold np_operand_nb. destruct (n_ell t) as [|[|k]].
+  - destruct (Nat.eqb rank (length (letters_of t))) eqn:E; [|discriminate].
+    intro H; inversion H; subst. apply Nat.eqb_eq in E. left. auto.
+  - destruct (length (letters_of t) <=? rank) eqn:E; [|discriminate].
+    intro H; inversion H; subst. right. repeat split; lia.
+  - discriminate.
+Qed.
+
+Lemma ell_needs_unlex ops : forall shapes nbs,
+  forallb only_labels ops = true -> Forall (Forall tok_ok) ops ->
+  np_operands_nb ops shapes = Some nbs ->
+  ell_needs (map unlex ops) shapes = Some (needs_of ops nbs) /\
+  length nbs = length ops /\ length shapes = length ops /\
+  Forall (fun tn => n_ell (fst tn) = 0 -> snd tn = 0) (combine ops nbs).
+Proof.
+  induction ops as [|t ops IH]; intros shapes nbs Ho Hk; cbn [np_operands_nb].
+  - destruct shapes; [|discriminate]. intro H; inversion H; subst. cbn. auto.
+  - destruct shapes as [|sh shapes]; [discriminate|].
+    destruct (np_operand_nb t (length sh)) as [nb|] eqn:E1; [|discriminate].
+    destruct (np_operands_nb ops shapes) as [nbs'|] eqn:E2; [|discriminate].
+    intro H; inversion H; subst. cbn in Ho. apply andb_true_iff in Ho. destruct Ho as [Ho1 Ho2].
+    inversion Hk as [|? ? K1 K2]; subst.
+    destruct (IH shapes nbs' Ho2 K2 E2) as [I1 [I2 [I3 I4]]].
+    split; [|cbn; repeat split; try lia; constructor; [|exact I4]].
+    + cbn [map ell_needs]. rewrite I1. unfold ell_need. rewrite (check_ellipsis_unlex t Ho1 K1).
+      unfold needs_of. cbn [combine map fst snd].
+      destruct (np_operand_nb_spec _ _ _ E1) as [[A [B C]]|[A [B C]]].
+      * assert (Hn : need_of t nb = None) by (unfold need_of; rewrite A; reflexivity).
+        rewrite Hn, A. reflexivity.
+      * assert (Hn : need_of t nb = Some (Z.of_nat nb)) by (unfold need_of; rewrite A; reflexivity).
+        rewrite Hn, A. rewrite (length_unlex t Ho1), A. do 3 f_equal.
+        lia.
+    + cbn [fst snd]. intro A. destruct (np_operand_nb_spec _ _ _ E1) as [[_ [B _]]|[A' _]]; [exact B|lia].
+Qed.
+
+Lemma fold_max_acc l : forall a, a <= fold_left Nat.max l a.
+Proof. induction l as [|y l IH]; intro a; cbn; [lia|]. specialize (IH (Nat.max a y)). lia. Qed.
+Lemma fold_max_ge l : forall a x, x = a \/ In x l -> x <= fold_left Nat.max l a.
+Proof.
+  induction l as [|y l IH]; intros a x; cbn; [intros [->|[]]; lia|].
+  pose proof (fold_max_acc l (Nat.max a y)).
+  intros [->|[->|H']]; [lia|lia|apply IH; right; exact H'].
+Qed.
+Lemma fold_max_attained l : forall a, fold_left Nat.max l a = a \/ In (fold_left Nat.max l a) l.
+Proof.
+  induction l as [|y l IH]; intro a; cbn; [left; reflexivity|].
+  destruct (IH (Nat.max a y)) as [E|H]; [|right; right; exact H].
+  rewrite E. destruct (Nat.max_spec a y) as [[_ ->]|[_ ->]]; [right; left; reflexivity|left; reflexivity].
+Qed.
+
+Lemma in_somes {A} (x : A) l : In x (somes l) <-> In (Some x) l.
+Proof.
+  induction l as [|[a|] l IH]; cbn; [tauto| |].
+  - rewrite IH. split; [intros [->|H]; auto|intros [H|H]; [inversion H; auto|auto]].
+  - rewrite IH. split; [auto|intros [H|H]; [discriminate|auto]].
+Qed.
+
+Lemma in_needs_of ops nbs z : In (Some z) (needs_of ops nbs) <->
+  exists t nb, In (t, nb) (combine ops nbs) /\ n_ell t <> 0 /\ z = Z.of_nat nb.
+Proof.
+  unfold needs_of. rewrite in_map_iff. split.
+  - intros [[t nb] [E H]]. cbn in E. unfold need_of in E. destruct (Nat.eqb (n_ell t) 0) eqn:N; [discriminate|].
+    inversion E; subst. apply Nat.eqb_neq in N. eauto.
+  - intros [t [nb [H [N ->]]]]. exists (t, nb). split; [|exact H]. cbn. unfold need_of.
+    apply Nat.eqb_neq in N. rewrite N. reflexivity.
+Qed.
+
+Lemma req_is_max ops nbs :
+  length nbs = length ops ->
+  Forall (fun tn => n_ell (fst tn) = 0 -> snd tn = 0) (combine ops nbs) ->
+  (exists t, In t ops /\ n_ell t <> 0) ->
+  zmax_values (somes (needs_of ops nbs)) = Some (Z.of_nat (fold_left Nat.max nbs 0)).
+Proof.
+  intros HL H0 [t0 [Ht0 Hn0]].
+  set (N := fold_left Nat.max nbs 0).
+  (* the list is not empty *)
+  destruct (In_nth _ _ [] Ht0) as [i [Hi Ei]].
+  assert (Hin0 : In (t0, nth i nbs 0) (combine ops nbs)).
+  { rewrite <- Ei. rewrite <- combine_nth by lia. apply nth_In. rewrite combine_length. lia. }
+  assert (Hne : In (Z.of_nat (nth i nbs 0)) (somes (needs_of ops nbs))).
+  { apply in_somes, in_needs_of. eauto. }
+  destruct (somes (needs_of ops nbs)) as [|v vs] eqn:ES; [destruct Hne|].
+  unfold zmax_values. f_equal. fold (zmax_list vs v).
+  assert (Hall : forall z, In z (v :: vs) -> exists t nb, In (t, nb) (combine ops nbs) /\ n_ell t <> 0 /\ z = Z.of_nat nb).
+  { intros z Hz. rewrite <- ES in Hz. apply in_somes, in_needs_of in Hz. exact Hz. }
+  assert (Hge : forall z, In z (v :: vs) -> (z <= zmax_list vs v)%Z).
+  { intros z [<-|Hz]; [rewrite (zmax_list_acc vs v); lia|apply zmax_list_ge; exact Hz]. }
+  assert (Hatt : In (zmax_list vs v) (v :: vs)).
+  { destruct (zmax_list_attained vs v) as [E|H]; [left; symmetry; exact E|right; exact H]. }
+  apply Z.le_antisymm.
+  - destruct (Hall _ Hatt) as [t [nb [Hc [_ ->]]]].
+    apply in_combine_r in Hc. assert (nb <= N) by (apply fold_max_ge; right; exact Hc). lia.
+  - pose proof (fold_max_attained nbs 0) as HA. fold N in HA. destruct HA as [E|Hin].
+    + rewrite E. destruct (Hall _ Hatt) as [t [nb [_ [_ ->]]]]. lia.
+    + destruct (In_nth _ _ 0 Hin) as [j [Hj Ej]].
+      assert (Hcj : In (nth j ops [], N) (combine ops nbs)).
+      { rewrite <- Ej. rewrite <- combine_nth by lia. apply nth_In. rewrite combine_length. lia. }
+      destruct (Nat.eq_dec (n_ell (nth j ops [])) 0) as [Z0|NZ].
+      * rewrite Forall_forall in H0. specialize (H0 _ Hcj Z0). cbn in H0. rewrite H0.
+        destruct (Hall _ Hatt) as [t [nb [_ [_ ->]]]]. lia.
+      * apply Hge. rewrite <- ES. apply in_somes, in_needs_of. eauto.
+Qed.
+
+Lemma slice_from_nat {A} (k : nat) (l : list A) : k <= length l -> slice_from (Z.of_nat k) l = skipn k l.
+Proof.
+  intro H. unfold slice_from. replace (Z.of_nat k <? 0)%Z with false by lia.
+  rewrite Z.min_l by lia. rewrite Nat2Z.id. reflexivity.
+Qed.
+
+Lemma expand_term_spec E N t nb : only_labels t = true -> Forall tok_ok t -> length E = N -> nb <= N ->
+  expand_term (Z.of_nat N) E (unlex t) (need_of t nb) = map (rho E) (expand_toks nb t).
+Proof.
+  intros Ho Hk HE Hnb. rewrite rho_expand_toks by (auto; lia). rewrite HE.
+  unfold need_of, expand_term. destruct (Nat.eqb (n_ell t) 0) eqn:Z0.
+  - apply Nat.eqb_eq in Z0. apply unlex_no_ell; assumption.
+  - replace (Z.of_nat N - Z.of_nat nb)%Z with (Z.of_nat (N - nb)) by lia.
+    rewrite slice_from_nat by lia. apply replace_ell_unlex; assumption.
+Qed.
+
+Lemma expand_terms_spec E N ops : forall nbs,
+  forallb only_labels ops = true -> Forall (Forall tok_ok) ops -> length E = N ->
+  Forall (fun nb => nb <= N) nbs ->
+  expand_terms (Z.of_nat N) E (map unlex ops) (needs_of ops nbs) =
+  map (map (rho E)) (map (fun tn => expand_toks (snd tn) (fst tn)) (combine ops nbs)).
+Proof.
+  unfold expand_terms, needs_of.
+  induction ops as [|t ops IH]; intros nbs Ho Hk HE Hnb; [reflexivity|].
+  destruct nbs as [|nb nbs]; [reflexivity|].
+  cbn in Ho. apply andb_true_iff in Ho. destruct Ho as [Ho1 Ho2].
+  inversion Hk as [|? ? K1 K2]; subst. inversion Hnb as [|? ? B1 B2]; subst.
+  cbn [map combine fst snd]. f_equal; [apply expand_term_spec; auto|]. apply IH; auto.
+Qed.
+
+(* --- the left-hand side as a whole: dots, letters, implicit output --- *)
+Definition lhs_tok (t : tok) : Prop := match t with TArrow => False | _ => True end.
+
+Lemma memb_app x l1 l2 : memb x (l1 ++ l2) = memb x l1 || memb x l2.
+Proof. unfold memb. apply existsb_app. Qed.
+
+Lemma memb_dot_unlex l : Forall tok_ok l -> memb c_dot (unlex l) = existsb is_ell l.
+Proof.
+  induction 1 as [|t l Ht Hl IH]; [reflexivity|].
+  rewrite unlex_cons, memb_app, IH. destruct t as [c| | |]; try reflexivity.
+  change (memb c_dot (unlex1 (TL c))) with (Nat.eqb c_dot c || false).
+  destruct Ht as [_ [_ [_ [D _]]]].
+  replace (Nat.eqb c_dot c) with false by (symmetry; apply Nat.eqb_neq; intro; apply D; auto). reflexivity.
+Qed.
+
+Lemma tsplit_comma_flat {A} (f : tok -> list A) l : f TComma = [] ->
+  concat (map (fun p => concat (map f p)) (tsplit is_comma l)) = concat (map f l).
+Proof.
+  intro Hf. induction l as [|t l IH]; [reflexivity|].
+  cbn [tsplit]. destruct (is_comma t) eqn:E.
+  - destruct t; try discriminate. cbn [map concat]. rewrite Hf, IH. reflexivity.
+  - destruct (tsplit is_comma l) as [|h tl] eqn:S; [exfalso; eapply tsplit_nonempty; exact S|].
+    cbn [map concat] in *. rewrite <- IH. rewrite app_assoc. reflexivity.
+Qed.
+Lemma letters_of_tsplit l : concat (map letters_of (tsplit is_comma l)) = letters_of l.
+Proof. unfold letters_of. apply tsplit_comma_flat. reflexivity. Qed.
+Lemma existsb_ell_tsplit l : existsb (existsb is_ell) (tsplit is_comma l) = existsb is_ell l.
+Proof.
+  induction l as [|t l IH]; [reflexivity|].
+  cbn [tsplit]. destruct (is_comma t) eqn:E.
+  - destruct t; try discriminate. cbn. exact IH.
+  - destruct (tsplit is_comma l) as [|h tl] eqn:S; [exfalso; eapply tsplit_nonempty; exact S|].
+    cbn in *. rewrite <- IH. rewrite orb_assoc. reflexivity.
+Qed.
+Lemma tsplit_comma_only_labels l : Forall lhs_tok l -> forallb only_labels (tsplit is_comma l) = true.
+Proof.
+  induction 1 as [|t l Ht Hl IH]; [reflexivity|].
+  cbn [tsplit]. destruct (is_comma t) eqn:E; [cbn; exact IH|].
+  destruct (tsplit is_comma l) as [|h tl] eqn:S; [exfalso; eapply tsplit_nonempty; exact S|].
+  cbn in *. apply andb_true_iff in IH. destruct IH as [I1 I2]. rewrite I2, andb_true_r.
+  unfold only_labels in *. cbn. rewrite I1. destruct t; try reflexivity; [discriminate|contradiction].
+Qed.
+Lemma tsplit_forall {P : tok -> Prop} sep l : Forall P l -> Forall (Forall P) (tsplit sep l).
+Proof.
+  induction 1 as [|t l Ht Hl IH]; cbn; [repeat constructor|].
+  destruct (sep t); [constructor; [constructor|exact IH]|].
+  destruct (tsplit sep l) as [|h tl]; [repeat constructor; exact Ht|].
+  inversion IH; subst. constructor; [constructor; assumption|assumption].
+Qed.
+
+Lemma n_ell_zero_iff t : n_ell t = 0 <-> existsb is_ell t = false.
+Proof.
+  unfold n_ell. induction t as [|x t IH]; cbn; [tauto|].
+  destruct (is_ell x); cbn; [split; [lia|discriminate]|exact IH].
+Qed.
+
+(* count of a character in the comma-free left-hand side *)
+Lemma count_lhs x l : Forall tok_ok l -> Forall lhs_tok l ->
+  count x (filter (fun c => negb (Nat.eqb c c_comma)) (unlex l)) =
+  count x (letters_of l) + (if Nat.eqb x c_dot then 3 * n_ell l else 0).
+Proof.
+  induction 1 as [|t l Ht Hl IH]; intro Hlt; [cbn; destruct (Nat.eqb x c_dot); reflexivity|].
+  inversion Hlt as [|? ? L1 L2]; subst. specialize (IH L2).
+  rewrite unlex_cons, filter_app, count_app, IH, letters_of_cons, count_app, n_ell_cons.
+  destruct t as [c| | |]; cbn [unlex1 is_ell]; try contradiction.
+  - destruct Ht as [_ [D1 [_ [D2 _]]]].
+    cbn [filter]. replace (Nat.eqb c c_comma) with false by (symmetry; apply Nat.eqb_neq; exact D1).
+    cbn [negb count]. destruct (Nat.eqb x c_dot) eqn:E; lia.
+  - change (filter (fun c => negb (Nat.eqb c c_comma)) [c_dot; c_dot; c_dot]) with [c_dot; c_dot; c_dot].
+    change (count x [c_dot; c_dot; c_dot]) with
+      ((if Nat.eqb c_dot x then 1 else 0) + ((if Nat.eqb c_dot x then 1 else 0) + ((if Nat.eqb c_dot x then 1 else 0) + 0))).
+    change (count x []) with 0. rewrite (Nat.eqb_sym c_dot x).
+    destruct (Nat.eqb x c_dot) eqn:E; lia.
+  - change (filter (fun c => negb (Nat.eqb c c_comma)) [c_comma]) with (@nil nat).
+    change (count x []) with 0. destruct (Nat.eqb x c_dot); lia.
+Qed.
+
+Lemma letters_are_letters l : Forall tok_ok l -> forall c, In c (letters_of l) -> not_reserved c.
+Proof.
+  induction 1 as [|t l Ht Hl IH]; intros c Hc; [destruct Hc|].
+  rewrite letters_of_cons in Hc. apply in_app_or in Hc. destruct Hc as [Hc|Hc]; [|apply IH; exact Hc].
+  destruct t; cbn in Hc; try contradiction. destruct Hc as [<-|[]]. exact Ht.
+Qed.
+
+(* strictly increasing lists are determined by their elements *)
+Lemma sorted_lt_unique l1 : forall l2, StronglySorted lt l1 -> StronglySorted lt l2 ->
+  (forall x, In x l1 <-> In x l2) -> l1 = l2.
+Proof.
+  induction l1 as [|a l1 IH]; intros l2 H1 H2 Hin.
+  - destruct l2 as [|b l2]; [reflexivity|]. exfalso. apply (Hin b). left; reflexivity.
+  - destruct l2 as [|b l2]; [exfalso; apply (Hin a); left; reflexivity|].
+    inversion H1 as [|? ? H1' A1]; inversion H2 as [|? ? H2' A2]; subst.
+    rewrite Forall_forall in A1, A2.
+    assert (a = b).
+    { destruct (proj1 (Hin a) (or_introl eq_refl)) as [E|Hb]; [auto|].
+      destruct (proj2 (Hin b) (or_introl eq_refl)) as [E|Ha]; [auto|].
+      specialize (A1 _ Ha). specialize (A2 _ Hb). lia. }
+    subst b. f_equal. apply IH; auto. intro x. split; intro Hx.
+    + destruct (proj1 (Hin x) (or_intror Hx)) as [E|]; [|assumption]. subst x. specialize (A1 _ Hx). lia.
+    + destruct (proj2 (Hin x) (or_intror Hx)) as [E|]; [|assumption]. subst x. specialize (A2 _ Hx). lia.
+Qed.
+Lemma sorted_le_nodup_lt l : StronglySorted le l -> NoDup l -> StronglySorted lt l.
+Proof.
+  induction 1 as [|a l Hs IH Hall]; intro Hnd; constructor.
+  - apply IH. inversion Hnd; assumption.
+  - inversion Hnd as [|? ? Hni _]; subst. rewrite Forall_forall in *. intros b Hb.
+    specialize (Hall b Hb). assert (a <> b) by (intro; subst; contradiction). lia.
+Qed.
+Lemma sorted_filter {A} (R : A -> A -> Prop) f l : StronglySorted R l -> StronglySorted R (filter f l).
+Proof.
+  induction 1 as [|a l Hs IH Hall]; cbn; [constructor|].
+  destruct (f a); [|exact IH]. constructor; [exact IH|].
+  rewrite Forall_forall in *. intros b Hb. apply filter_In in Hb. apply Hall. tauto.
+Qed.
+Lemma sort_unique_lt l : StronglySorted lt (sort_nat (unique l)).
+Proof.
+  apply sorted_le_nodup_lt; [apply sort_nat_sorted|].
+  eapply Permutation_NoDup; [symmetry; apply sort_nat_perm|apply unique_nodup].
+Qed.
+Lemma once_sorted_in l x : In x (once_sorted l) <-> count x l = 1.
+Proof.
+  unfold once_sorted. rewrite filter_In, sort_nat_in, unique_in, Nat.eqb_eq. split; [tauto|].
+  intro H. split; [apply count_pos; lia|exact H].
+Qed.
+Lemma once_sorted_sorted l : StronglySorted lt (once_sorted l).
+Proof. apply sorted_filter, sort_unique_lt. Qed.
+
+(* (1) implicit output: find_output_str of the rendered left-hand side is numpy's rule *)
+Lemma find_output_str_unlex l : Forall tok_ok l -> Forall lhs_tok l ->
+  find_output_str (unlex l) = once_sorted (letters_of l).
+Proof.
+  intros Hk Hl. unfold find_output_str. fold (once_sorted (filter (fun x => negb (Nat.eqb x c_comma)) (unlex l))).
+  apply sorted_lt_unique; try apply once_sorted_sorted.
+  intro x. rewrite !once_sorted_in, (count_lhs x l Hk Hl).
+  destruct (Nat.eqb x c_dot) eqn:E; [|lia].
+  apply Nat.eqb_eq in E. subst x.
+  assert (count c_dot (letters_of l) = 0).
+  { apply count_zero. intro H. apply (letters_are_letters l Hk) in H. destruct H as [_ [_ [_ [D _]]]]. apply D. reflexivity. }
+  lia.
+Qed.
+
+(* --- the output --- *)
+Lemma rho_LN E l : map (rho E) (map LN l) = l.
+Proof. rewrite map_map. cbn. apply map_id. Qed.
+
+Lemma output_explicit E N all o nout : only_labels o = true -> Forall tok_ok o -> length E = N ->
+  np_output N all (Some o) = Some nout ->
+  match check_ellipsis (unlex o) with
+  | None => None
+  | Some true => Some (replace_ell E (unlex o))
+  | Some false => Some (unlex o)
+  end = Some (map (rho E) nout).
+Proof.
+  intros Ho Hk HE. unfold np_output.
+  destruct (negb (nodupb (letters_of o))); [discriminate|].
+  destruct (negb (forallb (fun c => memb c all) (letters_of o))); [discriminate|].
+  rewrite (check_ellipsis_unlex o Ho Hk).
+  destruct (n_ell o) as [|[|k]] eqn:En.
+  - destruct (Nat.eqb N 0) eqn:EN; [|discriminate]. intro H; inversion H; subst nout.
+    f_equal. rewrite rho_expand_toks by (auto; lia). apply unlex_no_ell; auto.
+  - intro H; inversion H; subst nout. f_equal.
+    rewrite rho_expand_toks by (auto; lia). rewrite HE, Nat.sub_diag. cbn [skipn].
+    apply replace_ell_unlex; auto.
+  - discriminate.
+Qed.
+
+Lemma output_implicit E N lhs nout : Forall tok_ok lhs -> Forall lhs_tok lhs -> length E = N ->
+  np_output N (letters_of lhs) None = Some nout ->
+  E ++ find_output_str (unlex lhs) = map (rho E) nout.
+Proof.
+  intros Hk Hl HE. unfold np_output. intro H; inversion H; subst nout.
+  rewrite map_app, rho_bdims by lia. rewrite HE, Nat.sub_diag. cbn [skipn].
+  rewrite rho_LN. f_equal. apply find_output_str_unlex; auto.
+Qed.
+
+Lemma noell_terms E ops : forall nbs, length nbs = length ops ->
+  forallb only_labels ops = true -> (forall t, In t ops -> n_ell t = 0) ->
+  Forall (fun nb => nb <= length E) nbs ->
+  map unlex ops = map (map (rho E)) (map (fun tn => expand_toks (snd tn) (fst tn)) (combine ops nbs)).
+Proof.
+  induction ops as [|t ops IH]; intros nbs HL Ho Hz Hnb; [reflexivity|].
+  destruct nbs as [|nb nbs]; [discriminate|]. cbn in HL.
+  cbn in Ho. apply andb_true_iff in Ho. destruct Ho as [Ho1 Ho2]. inversion Hnb as [|? ? B1 B2]; subst.
+  cbn [map combine fst snd]. f_equal.
+  - rewrite rho_expand_toks by auto. apply unlex_no_ell; [exact Ho1|apply Hz; left; reflexivity].
+  - apply IH; auto. intros; apply Hz; right; assumption.
+Qed.
+
+Lemma fold_max_zero l : (forall x, In x l -> x = 0) -> fold_left Nat.max l 0 = 0.
+Proof.
+  intro H. destruct (fold_max_attained l 0) as [E|Hin]; [exact E|]. apply H. exact Hin.
+Qed.
+
+Lemma no_arrow_lhs_tok l : Forall no_arrow l -> Forall lhs_tok l.
+Proof. apply Forall_impl. intros t H. destruct t; cbn; auto. discriminate H. Qed.
+
+Lemma existsb_ell_ops ops : existsb (existsb is_ell) ops = true -> exists t, In t ops /\ n_ell t <> 0.
+Proof.
+  intro H. apply existsb_exists in H. destruct H as [t [Ht E]]. exists t. split; [exact Ht|].
+  intro Z0. apply n_ell_zero_iff in Z0. congruence.
+Qed.
+Lemma existsb_ell_ops_false ops : existsb (existsb is_ell) ops = false -> forall t, In t ops -> n_ell t = 0.
+Proof.
+  intros H t Ht. apply n_ell_zero_iff. destruct (existsb is_ell t) eqn:E; [|reflexivity].
+  assert (existsb (existsb is_ell) ops = true) by (apply existsb_exists; eauto). congruence.
+Qed.
+
+Lemma lhs_tok_no_arrow l : Forall lhs_tok l -> Forall no_arrow l.
+Proof. apply Forall_impl. intros t H. destruct t; cbn in *; try reflexivity. contradiction. Qed.
+
+(* THE token-level theorem: everything after lexing and splitting *)
+Lemma core_matches_numpy lhs out shapes nops nout :
+  Forall tok_ok lhs -> Forall lhs_tok lhs ->
+  (match out with Some o => Forall tok_ok o | None => True end) ->
+  np_core (tsplit is_comma lhs) out shapes = Some (nops, nout) ->
+  let inputs := split_char c_comma (unlex lhs) in
+  let E := match ell_needs inputs shapes with
+           | Some needs => match ellipses_inds_of inputs needs with Some (_, E) => E | None => [] end
+           | None => [] end in
+  (if negb (Nat.eqb (length inputs) (length shapes)) then None
+   else if memb c_dot (unlex lhs) then
+     match ell_needs inputs shapes with
+     | None => None
+     | Some needs =>
+       match ellipses_inds_of inputs needs with
+       | None => None
+       | Some (req, ellipses_inds) =>
+         let inputs' := expand_terms req ellipses_inds inputs needs in
+         match out with
+         | Some o =>
+           match check_ellipsis (unlex o) with
+           | None => None
+           | Some true => Some (inputs', replace_ell ellipses_inds (unlex o))
+           | Some false => Some (inputs', unlex o)
+           end
+         | None => Some (inputs', ellipses_inds ++ find_output_str (unlex lhs))
+         end
+       end
+     end
+   else
+     match out with
+     | Some o =>
+       match check_ellipsis (unlex o) with
+       | None => None
+       | Some true => Some (inputs, replace_ell [] (unlex o))
+       | Some false => Some (inputs, unlex o)
+       end
+     | None => Some (inputs, find_output_str (unlex lhs))
+     end) = Some (map (map (rho E)) nops, map (rho E) nout).
+Proof.
+  intros Hk Hl Hko. set (ops := tsplit is_comma lhs).
+  assert (Hops_k : Forall (Forall tok_ok) ops) by (apply tsplit_forall; exact Hk).
+  assert (Hops_o : forallb only_labels ops = true) by (apply tsplit_comma_only_labels; exact Hl).
+  unfold np_core. rewrite Hops_o. cbn [negb].
+  destruct (negb (match out with Some o => only_labels o | None => true end)) eqn:Eo; [discriminate|].
+  destruct (np_operands_nb ops shapes) as [nbs|] eqn:Enb; [|discriminate].
+  destruct (ell_needs_unlex ops shapes nbs Hops_o Hops_k Enb) as [N1 [N2 [N3 N4]]].
+  set (N := fold_left Nat.max nbs 0).
+  replace (concat (map letters_of ops)) with (letters_of lhs) by (symmetry; apply letters_of_tsplit).
+  destruct (np_output N (letters_of lhs) out) as [o'|] eqn:Eout; [|discriminate].
+  intro H; inversion H; subst nops nout. clear H.
+  cbn zeta. rewrite (split_comma_unlex lhs Hk (lhs_tok_no_arrow lhs Hl)).
+  fold ops. rewrite map_length, N3, Nat.eqb_refl. cbn [negb].
+  rewrite (memb_dot_unlex lhs Hk), <- (existsb_ell_tsplit lhs). fold ops. rewrite N1.
+  assert (Hnbs : Forall (fun nb => nb <= N) nbs).
+  { rewrite Forall_forall. intros nb Hnb. apply fold_max_ge. right. exact Hnb. }
+  destruct (existsb (existsb is_ell) ops) eqn:Eell.
+  - (* some operand has an ellipsis *)
+    unfold ellipses_inds_of.
+    rewrite (req_is_max ops nbs N2 N4 (existsb_ell_ops ops Eell)). fold N. rewrite Nat2Z.id.
+    set (E := fresh_symbols N (concat (map unlex ops))).
+    assert (HE : length E = N) by apply fresh_symbols_spec.
+    rewrite (expand_terms_spec E N ops nbs Hops_o Hops_k HE Hnbs).
+    destruct out as [o|].
+    + apply negb_false_iff in Eo.
+      pose proof (output_explicit E N (letters_of lhs) o o' Eo Hko HE Eout) as HO.
+      destruct (check_ellipsis (unlex o)) as [[|]|]; inversion HO; reflexivity.
+    + rewrite (output_implicit E N lhs o' Hk Hl HE Eout). reflexivity.
+  - (* no ellipsis on the left-hand side *)
+    pose proof (existsb_ell_ops_false ops Eell) as Hz.
+    assert (HN0 : N = 0).
+    { apply fold_max_zero. intros nb Hnb. destruct (In_nth _ _ 0 Hnb) as [j [Hj Ej]].
+      assert (Hc : In (nth j ops [], nb) (combine ops nbs)).
+      { rewrite <- Ej. rewrite <- combine_nth by lia. apply nth_In. rewrite combine_length. lia. }
+      rewrite Forall_forall in N4. apply (N4 _ Hc). cbn. apply Hz. apply nth_In. lia. }
+    assert (HE0 : match ellipses_inds_of (map unlex ops) (needs_of ops nbs) with Some (_, E) => E | None => [] end = []).
+    { unfold ellipses_inds_of. destruct (zmax_values (somes (needs_of ops nbs))) as [r|] eqn:Ez; [|reflexivity].
+      exfalso. unfold zmax_values in Ez. destruct (somes (needs_of ops nbs)) as [|v vs] eqn:ES; [discriminate|].
+      assert (Hv : In v (somes (needs_of ops nbs))) by (rewrite ES; left; reflexivity).
+      apply in_somes, in_needs_of in Hv. destruct Hv as [t [nb [Hc [Hne _]]]].
+      apply Hne, Hz. apply in_combine_l in Hc. exact Hc. }
+    rewrite HE0.
+    assert (Hnbs0 : Forall (fun nb => nb <= length (@nil nat)) nbs).
+    { eapply Forall_impl; [|exact Hnbs]. cbn. intros; lia. }
+    rewrite <- (noell_terms [] ops nbs N2 Hops_o Hz Hnbs0).
+    destruct out as [o|].
+    + apply negb_false_iff in Eo.
+      pose proof (output_explicit [] N (letters_of lhs) o o' Eo Hko (eq_sym HN0) Eout) as HO.
+      destruct (check_ellipsis (unlex o)) as [[|]|]; inversion HO; reflexivity.
+    + rewrite <- (output_implicit [] N lhs o' Hk Hl (eq_sym HN0) Eout). reflexivity.
+Qed.
+
+(* --- (1)+(2): the string form, for ALL strings numpy accepts --- *)
+Theorem string_matches_numpy eq shapes nops nout :
+  np_parse eq shapes = Some (nops, nout) ->
+  let E := model_ellipses_inds (strip_spaces eq) shapes in
+  parse_equation_ellipses_v true (strip_spaces eq) shapes = Some (map (map (rho E)) nops, map (rho E) nout).
+Proof.
+  unfold np_parse. destruct (np_lex eq) as [ts|] eqn:L; [|discriminate].
+  destruct (np_lex_sound (length eq) eq ts (le_n _) L) as [S1 K].
+  pose proof (tsplit_forall is_arrow ts K) as KP.
+  pose proof (tsplit_arrow_no_arrow ts) as NP.
+  pose proof (split_arrow_unlex ts K) as SA.
+  destruct (tsplit is_arrow ts) as [|lhs [|rhs [|x y]]] eqn:SP; try discriminate.
+  - intro H. inversion KP as [|? ? K1 _]; subst. inversion NP as [|? ? A1 _]; subst.
+    cbn zeta. unfold parse_equation_ellipses_v, model_ellipses_inds. rewrite S1, SA. cbn [map hd tl].
+    exact (core_matches_numpy lhs None shapes nops nout K1 (no_arrow_lhs_tok lhs A1) I H).
+  - intro H. inversion KP as [|? ? K1 KP']; subst. inversion KP' as [|? ? K2 _]; subst.
+    inversion NP as [|? ? A1 _]; subst.
+    cbn zeta. unfold parse_equation_ellipses_v, model_ellipses_inds. rewrite S1, SA. cbn [map hd tl].
+    exact (core_matches_numpy lhs (Some rhs) shapes nops nout K1 (no_arrow_lhs_tok lhs A1) K2 H).
+Qed.
+
+Lemma list_eqb_nat_refl (l : list nat) : list_eqb Nat.eqb l l = true.
+Proof. apply list_eqb_nat_eq. reflexivity. Qed.
+Lemma ops_eqb_refl a : ops_eqb a a = true.
+Proof.
+  unfold ops_eqb. rewrite list_eqb_nat_refl, andb_true_r.
+  induction (fst a) as [|x l IH]; cbn; [reflexivity|]. rewrite list_eqb_nat_refl, IH. reflexivity.
+Qed.
+
+(* in the vocabulary of the check: the verdict is never `Some false` *)
+Theorem string_agrees_with_numpy fx eq shapes :
+  fx_spaces fx = true -> fx_outell fx = true ->
+  agrees_args_v fx (AStr eq shapes) = match np_parse eq shapes with Some _ => Some true | None => None end.
+Proof.
+  intros F1 F2. unfold agrees_args_v. cbn [np_parse_args einsum_eq_v eargs_shapes]. rewrite F1, F2.
+  destruct (np_parse eq shapes) as [[nops nout]|] eqn:P; [|reflexivity].
+  pose proof (string_matches_numpy eq shapes nops nout P) as H. cbn zeta in H.
+  unfold rho_args. fold (rho (model_ellipses_inds (strip_spaces eq) shapes)).
+  change (fun l : lab => match l with LN c => c | LB k => nth (length (model_ellipses_inds (strip_spaces eq) shapes) - 1 - k) (model_ellipses_inds (strip_spaces eq) shapes) 0 end)
+    with (rho (model_ellipses_inds (strip_spaces eq) shapes)).
+  rewrite H. rewrite ops_eqb_refl. reflexivity.
+Qed.
+
+(* the renaming is injective: the ellipsis symbols are pairwise distinct and occur in no input term *)
+Lemma model_ellipses_inds_fresh eq shapes :
+  let E := model_ellipses_inds eq shapes in
+  NoDup E /\ forall s, In s E -> ~ In s (concat (split_char c_comma (hd [] (split_arrow eq)))).
+Proof.
+  unfold model_ellipses_inds.
+  destruct (ell_needs _ shapes) as [needs|]; [|split; [constructor|intros ? []]].
+  unfold ellipses_inds_of. destruct (zmax_values (somes needs)) as [req|]; [|split; [constructor|intros ? []]].
+  destruct (fresh_symbols_spec (Z.to_nat req) (concat (split_char c_comma (hd [] (split_arrow eq))))) as [_ [H1 H2]].
+  split; [exact H1|]. intros s Hs. apply H2. exact Hs.
+Qed.
+
+Theorem rho_injective used E : NoDup E -> (forall s, In s E -> ~ In s used) ->
+  forall l1 l2, label_in used E l1 -> label_in used E l2 -> rho E l1 = rho E l2 -> l1 = l2.
+Proof.
+  intros Hnd Hfresh [c1|k1] [c2|k2] H1 H2; cbn in *; intro Heq.
+  - congruence.
+  - exfalso. apply (Hfresh c1); [|exact H1]. rewrite Heq. apply nth_In. lia.
+  - exfalso. apply (Hfresh c2); [|exact H2]. rewrite <- Heq. apply nth_In. lia.
+  - f_equal. assert (length E - 1 - k1 = length E - 1 - k2); [|lia].
+    apply (proj1 (NoDup_nth E 0) Hnd); [lia|lia|exact Heq].
+Qed.
+
+(* ================================================================== *)
+(* (3) the interleaved form                                            *)
+
+(* --- NumpySpec commutes with an injective renaming of the letters (explicit output) --- *)
+Definition tmap (tau : nat -> nat) (t : tok) : tok := match t with TL c => TL (tau c) | x => x end.
+Definition lmap (tau : nat -> nat) (l : lab) : lab := match l with LN c => LN (tau c) | x => x end.
+
+Lemma forallb_map' {A B} (f : B -> bool) (g : A -> B) l : forallb f (map g l) = forallb (fun x => f (g x)) l.
+Proof. induction l as [|x l IH]; cbn; [reflexivity|]. rewrite IH. reflexivity. Qed.
+Lemma forallb_ext' {A} (f g : A -> bool) l : (forall x, f x = g x) -> forallb f l = forallb g l.
+Proof. intro H. induction l as [|x l IH]; cbn; [reflexivity|]. rewrite H, IH. reflexivity. Qed.
+
+Lemma only_labels_tmap tau t : only_labels (map (tmap tau) t) = only_labels t.
+Proof. unfold only_labels. rewrite forallb_map'. apply forallb_ext'. intros [ | | | ]; reflexivity. Qed.
+Lemma n_ell_tmap tau t : n_ell (map (tmap tau) t) = n_ell t.
+Proof. induction t as [|x t IH]; [reflexivity|]. rewrite map_cons, !n_ell_cons, IH. destruct x; reflexivity. Qed.
+Lemma letters_of_tmap tau t : letters_of (map (tmap tau) t) = map tau (letters_of t).
+Proof.
+  induction t as [|x t IH]; [reflexivity|]. rewrite map_cons, !letters_of_cons, map_app, IH.
+  destruct x; reflexivity.
+Qed.
+Lemma expand_toks_tmap tau nb t : expand_toks nb (map (tmap tau) t) = map (lmap tau) (expand_toks nb t).
+Proof.
+  unfold expand_toks. rewrite map_map, concat_map, map_map. f_equal. apply map_ext.
+  intros [c| | |]; try reflexivity. cbn. unfold bdims. rewrite map_map. reflexivity.
+Qed.
+Lemma np_operands_nb_tmap tau ops : forall shapes,
+  np_operands_nb (map (map (tmap tau)) ops) shapes = np_operands_nb ops shapes.
+Proof.
+  induction ops as [|t ops IH]; intros [|s shapes]; cbn; try reflexivity.
+  rewrite IH. unfold np_operand_nb. rewrite n_ell_tmap, letters_of_tmap, map_length. reflexivity.
+Qed.
+
+Lemma memb_map_inj tau c l : (forall y, In y l -> tau y = tau c -> y = c) -> memb (tau c) (map tau l) = memb c l.
+Proof.
+  intro H. destruct (memb c l) eqn:E.
+  - apply memb_In. apply in_map. apply memb_In. exact E.
+  - apply memb_false. intro Hin. apply in_map_iff in Hin. destruct Hin as [y [E1 E2]].
+    apply memb_false in E. apply E. rewrite <- (H y E2 E1). exact E2.
+Qed.
+Lemma nodupb_map_inj tau l : (forall x y, In x l -> In y l -> tau x = tau y -> x = y) ->
+  nodupb (map tau l) = nodupb l.
+Proof.
+  induction l as [|a l IH]; intro H; [reflexivity|]. cbn [map nodupb].
+  rewrite IH by (intros; apply H; auto; right; assumption).
+  rewrite memb_map_inj; [reflexivity|]. intros y Hy E. apply H; [right; exact Hy|left; reflexivity|exact E].
+Qed.
+
+Lemma np_core_relabel tau ops o shapes nops nout :
+  (forall x y, In x (concat (map letters_of ops)) -> In y (concat (map letters_of ops)) -> tau x = tau y -> x = y) ->
+  np_core ops (Some o) shapes = Some (nops, nout) ->
+  np_core (map (map (tmap tau)) ops) (Some (map (tmap tau) o)) shapes =
+  Some (map (map (lmap tau)) nops, map (lmap tau) nout).
+Proof.
+  intro Hinj. unfold np_core.
+  rewrite forallb_map'. rewrite (forallb_ext' (fun x => only_labels (map (tmap tau) x)) only_labels) by (intro; apply only_labels_tmap).
+  destruct (negb (forallb only_labels ops)); [discriminate|].
+  rewrite only_labels_tmap. destruct (negb (only_labels o)); [discriminate|].
+  rewrite np_operands_nb_tmap. destruct (np_operands_nb ops shapes) as [nbs|]; [|discriminate].
+  set (N := fold_left Nat.max nbs 0). set (all := concat (map letters_of ops)) in *.
+  assert (Hall : concat (map letters_of (map (map (tmap tau)) ops)) = map tau all).
+  { unfold all. rewrite map_map, concat_map, map_map. f_equal. apply map_ext. intro; apply letters_of_tmap. }
+  rewrite Hall. unfold np_output. rewrite letters_of_tmap, n_ell_tmap.
+  destruct (nodupb (letters_of o)) eqn:E1; [|discriminate]. cbn [negb].
+  destruct (forallb (fun c => memb c all) (letters_of o)) eqn:E2; [|discriminate]. cbn [negb].
+  assert (Hsub : forall c, In c (letters_of o) -> In c all).
+  { intros c Hc. rewrite forallb_forall in E2. apply memb_In. apply E2. exact Hc. }
+  rewrite nodupb_map_inj, E1 by (intros; apply Hinj; auto). cbn [negb].
+  rewrite forallb_map'.
+  assert (E2' : forallb (fun x => memb (tau x) (map tau all)) (letters_of o) = true).
+  { apply forallb_forall. intros c Hc. apply memb_In. apply in_map. apply Hsub. exact Hc. }
+  rewrite E2'. cbn [negb].
+  assert (Hops : map (fun tn => expand_toks (snd tn) (fst tn)) (combine (map (map (tmap tau)) ops) nbs) =
+                 map (map (lmap tau)) (map (fun tn => expand_toks (snd tn) (fst tn)) (combine ops nbs))).
+  { clear. revert nbs. induction ops as [|t ops IH]; intros [|nb nbs]; cbn [map combine fst snd]; try reflexivity.
+    rewrite expand_toks_tmap, IH. reflexivity. }
+  rewrite Hops.
+  destruct (n_ell o) as [|[|k]].
+  - destruct (Nat.eqb N 0); [|discriminate]. intro H; inversion H; subst. rewrite expand_toks_tmap. reflexivity.
+  - intro H; inversion H; subst. rewrite expand_toks_tmap. reflexivity.
+  - discriminate.
+Qed.
+
+(* --- NumpySpec: the implicit output, made explicit --- *)
+Definition explicit_of_implicit (ops : list (list tok)) : list tok :=
+  (if existsb (existsb is_ell) ops then [TEll] else []) ++ map TL (once_sorted (concat (map letters_of ops))).
+
+Lemma letters_of_map_TL l : letters_of (map TL l) = l.
+Proof. induction l as [|x l IH]; [reflexivity|]. rewrite map_cons, letters_of_cons, IH. reflexivity. Qed.
+Lemma n_ell_map_TL l : n_ell (map TL l) = 0.
+Proof. induction l as [|x l IH]; [reflexivity|]. rewrite map_cons, n_ell_cons, IH. reflexivity. Qed.
+Lemma only_labels_map_TL l : only_labels (map TL l) = true.
+Proof. unfold only_labels. rewrite forallb_map'. apply forallb_forall. reflexivity. Qed.
+Lemma expand_toks_map_TL nb l : expand_toks nb (map TL l) = map LN l.
+Proof. unfold expand_toks. induction l as [|x l IH]; [reflexivity|]. cbn [map concat]. rewrite IH. reflexivity. Qed.
+
+Lemma nodupb_NoDup l : NoDup l -> nodupb l = true.
+Proof.
+  induction 1 as [|x l Hn Hnd IH]; [reflexivity|]. cbn. rewrite IH, andb_true_r.
+  apply negb_true_iff. apply memb_false. exact Hn.
+Qed.
+Lemma sorted_lt_nodup l : StronglySorted lt l -> NoDup l.
+Proof.
+  induction 1 as [|a l Hs IH Hall]; constructor; [|exact IH].
+  intro H. rewrite Forall_forall in Hall. specialize (Hall a H). lia.
+Qed.
+
+Lemma np_operands_nb_noell ops : forall shapes nbs, np_operands_nb ops shapes = Some nbs ->
+  (forall t, In t ops -> n_ell t = 0) -> forall nb, In nb nbs -> nb = 0.
+Proof.
+  induction ops as [|t ops IH]; intros [|s shapes] nbs; cbn [np_operands_nb]; try discriminate.
+  - intro H; inversion H; subst. intros _ nb [].
+  - destruct (np_operand_nb t (length s)) as [n|] eqn:E1; [|discriminate].
+    destruct (np_operands_nb ops shapes) as [ns|] eqn:E2; [|discriminate].
+    intro H; inversion H; subst. intros Hz nb [<-|Hin].
+    + destruct (np_operand_nb_spec _ _ _ E1) as [[_ [B _]]|[A _]]; [exact B|].
+      rewrite (Hz t (or_introl eq_refl)) in A. discriminate.
+    + eapply IH; eauto. intros; apply Hz; right; assumption.
+Qed.
+
+Lemma np_core_implicit_explicit ops shapes nops nout :
+  np_core ops None shapes = Some (nops, nout) ->
+  np_core ops (Some (explicit_of_implicit ops)) shapes = Some (nops, nout).
+Proof.
+  unfold np_core. destruct (negb (forallb only_labels ops)); [discriminate|]. cbn [negb].
+  set (all := concat (map letters_of ops)).
+  set (has := existsb (existsb is_ell) ops).
+  assert (Ho : only_labels (explicit_of_implicit ops) = true).
+  { unfold explicit_of_implicit. fold all has. unfold only_labels. rewrite forallb_app.
+    fold (only_labels (map TL (once_sorted all))). rewrite only_labels_map_TL. destruct has; reflexivity. }
+  rewrite Ho. cbn [negb].
+  destruct (np_operands_nb ops shapes) as [nbs|] eqn:Enb; [|discriminate].
+  set (N := fold_left Nat.max nbs 0).
+  unfold np_output. fold (once_sorted all).
+  assert (HL : letters_of (explicit_of_implicit ops) = once_sorted all).
+  { unfold explicit_of_implicit. fold all has. unfold letters_of. rewrite map_app, concat_app.
+    fold (letters_of (map TL (once_sorted all))). rewrite letters_of_map_TL. destruct has; reflexivity. }
+  assert (HE : n_ell (explicit_of_implicit ops) = if has then 1 else 0).
+  { unfold explicit_of_implicit. fold all has. unfold n_ell. rewrite filter_app, app_length.
+    fold (n_ell (map TL (once_sorted all))). rewrite n_ell_map_TL. destruct has; reflexivity. }
+  rewrite HL, HE.
+  rewrite nodupb_NoDup by (apply sorted_lt_nodup, once_sorted_sorted). cbn [negb].
+  assert (Hm : forallb (fun c => memb c all) (once_sorted all) = true).
+  { apply forallb_forall. intros c Hc. apply once_sorted_in in Hc. apply memb_In. apply count_pos. lia. }
+  rewrite Hm. cbn [negb].
+  intro H; inversion H; subst nops nout. clear H.
+  unfold explicit_of_implicit. fold all has.
+  destruct has eqn:Ehas.
+  - do 2 f_equal. unfold expand_toks. cbn [map concat app].
+    fold (expand_toks N (map TL (once_sorted all))). rewrite expand_toks_map_TL. reflexivity.
+  - assert (HN : N = 0).
+    { apply fold_max_zero. intros nb Hnb. eapply np_operands_nb_noell; eauto.
+      apply existsb_ell_ops_false. exact Ehas. }
+    rewrite HN. cbn [Nat.eqb app]. rewrite expand_toks_map_TL. reflexivity.
+Qed.
+
+(* --- the model side: get_symbol_map and convert_from_interleaved --- *)
+Lemma ilab_eqb_eq a b : ilab_eqb a b = true <-> a = b.
+Proof.
+  destruct a, b; cbn; try (split; discriminate); [|tauto].
+  rewrite Nat.eqb_eq. split; [intros ->; reflexivity|intro H; inversion H; reflexivity].
+Qed.
+Lemma sm_get_in m x v : sm_get m x = Some v -> In (x, v) m.
+Proof.
+  induction m as [|[k w] m IH]; cbn; [discriminate|].
+  destruct (ilab_eqb k x) eqn:E.
+  - intro H; inversion H; subst. apply ilab_eqb_eq in E. subst. left; reflexivity.
+  - intro H. right. apply IH. exact H.
+Qed.
+Lemma sm_get_none m x : sm_get m x = None <-> ~ In x (map fst m).
+Proof.
+  induction m as [|[k w] m IH]; cbn; [tauto|].
+  destruct (ilab_eqb k x) eqn:E.
+  - apply ilab_eqb_eq in E. split; [discriminate|]. intro H; exfalso; apply H; left; exact E.
+  - rewrite IH. split; [|tauto]. intros H [H1|H1]; [|auto]. subst. 
+    assert (ilab_eqb x x = true) by (apply ilab_eqb_eq; reflexivity). congruence.
+Qed.
+
+Lemma sm_step_inv m c x m' c' : sm_wf m c -> sm_step (m, c) x = (m', c') ->
+  sm_wf m' c' /\ (forall y, In y (map fst m') <-> In y (map fst m) \/ y = x).
+Proof.
+  intros [W1 [W2 W3]]. unfold sm_step. destruct (sm_get m x) as [v|] eqn:G.
+  - intro H; inversion H; subst. split; [repeat split; assumption|].
+    intro y. split; [auto|]. intros [Hy| ->]; [exact Hy|].
+    apply sm_get_in in G. apply in_map_iff. exists (x, v). auto.
+  - apply sm_get_none in G. destruct x as [k|].
+    + intro H; inversion H; subst. split; [split; [|split]|].
+      * rewrite map_app. apply NoDup_snoc; assumption.
+      * intros y v Hin. apply in_app_or in Hin. destruct Hin as [Hin|[Hin|[]]].
+        -- specialize (W2 y v Hin). destruct y; [|exact W2]. destruct W2 as [i [Hi E]]. exists i. split; [lia|exact E].
+        -- inversion Hin; subst. exists c. split; [lia|reflexivity].
+      * intros k1 k2 i H1 H2. apply in_app_or in H1. apply in_app_or in H2.
+        destruct H1 as [H1|[H1|[]]], H2 as [H2|[H2|[]]].
+        -- eapply W3; eassumption.
+        -- injection H2 as Hk Hs. apply get_symbol_inj in Hs. destruct (W2 _ _ H1) as [j [Hj E]].
+           injection E as E'. apply get_symbol_inj in E'. lia.
+        -- injection H1 as Hk Hs. apply get_symbol_inj in Hs. destruct (W2 _ _ H2) as [j [Hj E]].
+           injection E as E'. apply get_symbol_inj in E'. lia.
+        -- injection H1 as Hk1 _. injection H2 as Hk2 _. congruence.
+      * intro y. rewrite map_app, in_app_iff. cbn. intuition.
+    + intro H; inversion H; subst. split; [split; [|split]|].
+      * rewrite map_app. apply NoDup_snoc; assumption.
+      * intros y v Hin. apply in_app_or in Hin. destruct Hin as [Hin|[Hin|[]]]; [apply W2; exact Hin|].
+        inversion Hin; subst. reflexivity.
+      * intros k1 k2 i H1 H2. apply in_app_or in H1. apply in_app_or in H2.
+        destruct H1 as [H1|[H1|[]]]; [|discriminate H1]. destruct H2 as [H2|[H2|[]]]; [|discriminate H2].
+        eapply W3; eassumption.
+      * intro y. rewrite map_app, in_app_iff. cbn. intuition.
+Qed.
+
+Lemma sm_fold_inv flat : forall m c, sm_wf m c ->
+  sm_wf (fst (fold_left sm_step flat (m, c))) (snd (fold_left sm_step flat (m, c))) /\
+  (forall y, In y (map fst (fst (fold_left sm_step flat (m, c)))) <-> In y (map fst m) \/ In y flat).
+Proof.
+  induction flat as [|x flat IH]; intros m c W; cbn [fold_left].
+  - split; [exact W|]. intro y. cbn. tauto.
+  - destruct (sm_step (m, c) x) as [m1 c1] eqn:S.
+    destruct (sm_step_inv _ _ _ _ _ W S) as [W1 K1].
+    destruct (IH m1 c1 W1) as [W2 K2]. split; [exact W2|].
+    intro y. rewrite K2, K1. cbn. intuition.
+Qed.
+
+Lemma fold_left_concat {A B} (f : A -> B -> A) (ls : list (list B)) : forall a,
+  fold_left (fun st t => fold_left f t st) ls a = fold_left f (concat ls) a.
+Proof. induction ls as [|l ls IH]; intro a; cbn; [reflexivity|]. rewrite fold_left_app. apply IH. Qed.
+
+Lemma get_symbol_map_spec inputs :
+  exists c, sm_wf (get_symbol_map inputs) c /\
+  (forall y, In y (map fst (get_symbol_map inputs)) <-> In y (concat inputs)).
+Proof.
+  unfold get_symbol_map. rewrite fold_left_concat.
+  assert (W0 : sm_wf [] 0) by (split; [constructor|split; [intros ? ? []|intros ? ? ? []]]).
+  destruct (sm_fold_inv (concat inputs) [] 0 W0) as [W K].
+  eexists. split; [exact W|]. intro y. rewrite K. cbn. tauto.
+Qed.
+
+Definition mtok (m : list (ilab * str)) (x : ilab) : tok :=
+  match x with IL k => TL (sigma m k) | IE => TEll end.
+
+Lemma sm_term_unlex m c term : sm_wf m c -> (forall x, In x term -> In x (map fst m)) ->
+  sm_term m term = Some (unlex (map (mtok m) term)).
+Proof.
+  intros [W1 [W2 W3]]. induction term as [|x r IH]; intro Hin; [reflexivity|].
+  cbn [sm_term map]. rewrite IH by (intros; apply Hin; right; assumption).
+  destruct (sm_get m x) as [v|] eqn:G; [|apply sm_get_none in G; exfalso; apply G, Hin; left; reflexivity].
+  rewrite unlex_cons. do 2 f_equal. pose proof (W2 _ _ (sm_get_in _ _ _ G)) as Hv.
+  destruct x as [k|]; cbn [mtok unlex1].
+  - destruct Hv as [i [_ ->]]. unfold sigma. rewrite G. reflexivity.
+  - exact Hv.
+Qed.
+Lemma sm_terms_unlex m c terms : sm_wf m c -> (forall x, In x (concat terms) -> In x (map fst m)) ->
+  sm_terms m terms = Some (map unlex (map (map (mtok m)) terms)).
+Proof.
+  intro W. induction terms as [|t r IH]; intro Hin; [reflexivity|].
+  cbn [sm_terms map]. rewrite (sm_term_unlex m c t W) by (intros; apply Hin; cbn; apply in_or_app; left; assumption).
+  rewrite IH by (intros; apply Hin; cbn; apply in_or_app; right; assumption). reflexivity.
+Qed.
+
+Lemma mtok_ok m c x : sm_wf m c -> In x (map fst m) -> tok_ok (mtok m x).
+Proof.
+  intros [W1 [W2 W3]] Hin. destruct x as [k|]; [|exact I]. cbn. unfold sigma.
+  destruct (sm_get m (IL k)) as [v|] eqn:G; [|apply sm_get_none in G; contradiction].
+  destruct (W2 _ _ (sm_get_in _ _ _ G)) as [i [_ ->]].
+  destruct (get_symbol_not_reserved i) as [A [B [C [D E]]]]. repeat split; assumption.
+Qed.
+Lemma sigma_inj m c k1 k2 : sm_wf m c -> In (IL k1) (map fst m) -> In (IL k2) (map fst m) ->
+  sigma m k1 = sigma m k2 -> k1 = k2.
+Proof.
+  intros [W1 [W2 W3]] H1 H2. unfold sigma.
+  destruct (sm_get m (IL k1)) as [v1|] eqn:G1; [|apply sm_get_none in G1; contradiction].
+  destruct (sm_get m (IL k2)) as [v2|] eqn:G2; [|apply sm_get_none in G2; contradiction].
+  apply sm_get_in in G1, G2.
+  destruct (W2 _ _ G1) as [i1 [_ E1]]. destruct (W2 _ _ G2) as [i2 [_ E2]]. subst v1 v2.
+  intro E. rewrite E in G1. eapply W3; eassumption.
+Qed.
+
+Lemma get_symbol_map_injective inputs : exists c,
+  sm_wf (get_symbol_map inputs) c /\
+  (forall y, In y (map fst (get_symbol_map inputs)) <-> In y (concat inputs)) /\
+  (forall k1 k2, In (IL k1) (concat inputs) -> In (IL k2) (concat inputs) ->
+     sigma (get_symbol_map inputs) k1 = sigma (get_symbol_map inputs) k2 -> k1 = k2).
+Proof.
+  destruct (get_symbol_map_spec inputs) as [c [W K]]. exists c. split; [exact W|]. split; [exact K|].
+  intros k1 k2 H1 H2. apply (sigma_inj _ c); auto; apply K; assumption.
+Qed.
+
+(* token-level join *)
+Fixpoint tjoin (ps : list (list tok)) : list tok :=
+  match ps with
+  | [] => []
+  | [p] => p
+  | p :: rest => p ++ TComma :: tjoin rest
+  end.
+Lemma unlex_app a b : unlex (a ++ b) = unlex a ++ unlex b.
+Proof. unfold unlex. rewrite map_app, concat_app. reflexivity. Qed.
+Lemma unlex_tjoin ps : unlex (tjoin ps) = join [c_comma] (map unlex ps).
+Proof.
+  induction ps as [|p [|q r] IH]; [reflexivity|reflexivity|].
+  change (tjoin (p :: q :: r)) with (p ++ TComma :: tjoin (q :: r)).
+  rewrite unlex_app, unlex_cons, IH. reflexivity.
+Qed.
+Lemma tsplit_app_sep sep p rest : (forall t, In t p -> sep t = false) -> forall s, sep s = true ->
+  tsplit sep (p ++ s :: rest) = p :: tsplit sep rest.
+Proof.
+  intros Hp s Hs. induction p as [|x p IH]; cbn [app tsplit]; [rewrite Hs; reflexivity|].
+  rewrite (Hp x (or_introl eq_refl)). rewrite IH by (intros; apply Hp; right; assumption). reflexivity.
+Qed.
+Lemma tsplit_nosep sep p : (forall t, In t p -> sep t = false) -> tsplit sep p = [p].
+Proof.
+  intro Hp. induction p as [|x p IH]; [reflexivity|]. cbn [tsplit].
+  rewrite (Hp x (or_introl eq_refl)). rewrite IH by (intros; apply Hp; right; assumption). reflexivity.
+Qed.
+Lemma tsplit_tjoin ps : ps <> [] -> (forall p t, In p ps -> In t p -> is_comma t = false) ->
+  tsplit is_comma (tjoin ps) = ps.
+Proof.
+  induction ps as [|p [|q r] IH]; intros Hne Hc; [contradiction| |].
+  - cbn [tjoin]. apply tsplit_nosep. intros; eapply Hc; [left; reflexivity|assumption].
+  - change (tjoin (p :: q :: r)) with (p ++ TComma :: tjoin (q :: r)).
+    rewrite tsplit_app_sep; [|intros; eapply Hc; [left; reflexivity|assumption]|reflexivity].
+    rewrite IH; [reflexivity|discriminate|]. intros; eapply Hc; [right; eassumption|assumption].
+Qed.
+
+(* --- numpy's tokens of a sublist; the computed output sublist is numpy's implicit output --- *)
+Definition letter (k : nat) : nat := if k <? 26 then 65 + k else 97 + (k - 26).
+Definition nt (x : ilab) : tok := match x with IE => TEll | IL k => TL (letter k) end.
+Definition labels_ok (l : list ilab) : Prop := forall k, In (IL k) l -> k < 52.
+
+Lemma np_sublist_spec l ts : np_sublist l = Some ts -> ts = map nt l /\ labels_ok l.
+Proof.
+  revert ts. induction l as [|x l IH]; intros ts; cbn [np_sublist].
+  - intro H; inversion H; subst. split; [reflexivity|intros k []].
+  - destruct (np_ilab x) as [t|] eqn:E1; [|discriminate]. destruct (np_sublist l) as [ts'|] eqn:E2; [|discriminate].
+    intro H; inversion H; subst. destruct (IH ts' eq_refl) as [-> L].
+    destruct x as [k|].
+    + unfold np_ilab in E1. destruct (k <? 26) eqn:A.
+      * injection E1 as <-. split; [cbn [map nt]; unfold letter; rewrite A; reflexivity|].
+        intros j [Hj|Hj]; [injection Hj as <-; lia|apply L; exact Hj].
+      * destruct (k <? 52) eqn:B; [|discriminate]. injection E1 as <-.
+        split; [cbn [map nt]; unfold letter; rewrite A; reflexivity|].
+        intros j [Hj|Hj]; [injection Hj as <-; lia|apply L; exact Hj].
+    + injection E1 as <-. split; [reflexivity|]. intros j [Hj|Hj]; [discriminate|apply L; exact Hj].
+Qed.
+Lemma np_sublist_complete l : labels_ok l -> np_sublist l = Some (map nt l).
+Proof.
+  induction l as [|x l IH]; intro L; [reflexivity|]. cbn [np_sublist map].
+  rewrite IH by (intros k Hk; apply L; right; exact Hk).
+  destruct x as [k|]; [|reflexivity]. assert (k < 52) by (apply L; left; reflexivity).
+  unfold np_ilab, nt, letter. destruct (k <? 26); [reflexivity|]. replace (k <? 52) with true by lia. reflexivity.
+Qed.
+Lemma np_sublists_spec ls tss : np_sublists ls = Some tss -> tss = map (map nt) ls /\ labels_ok (concat ls).
+Proof.
+  revert tss. induction ls as [|l ls IH]; intros tss; cbn [np_sublists].
+  - intro H; inversion H; subst. split; [reflexivity|intros k []].
+  - destruct (np_sublist l) as [t|] eqn:E1; [|discriminate]. destruct (np_sublists ls) as [ts'|] eqn:E2; [|discriminate].
+    intro H; inversion H; subst. destruct (IH ts' eq_refl) as [-> L]. destruct (np_sublist_spec _ _ E1) as [-> L1].
+    split; [reflexivity|]. intros k Hk. cbn in Hk. apply in_app_or in Hk. destruct Hk; [apply L1|apply L]; assumption.
+Qed.
+
+Lemma letter_mono k1 k2 : k1 < k2 -> k2 < 52 -> letter k1 < letter k2.
+Proof. unfold letter. intros. destruct (k1 <? 26) eqn:A, (k2 <? 26) eqn:B; lia. Qed.
+Lemma letter_inj k1 k2 : k1 < 52 -> k2 < 52 -> letter k1 = letter k2 -> k1 = k2.
+Proof.
+  intros H1 H2 E. destruct (Nat.lt_trichotomy k1 k2) as [H|[H|H]]; [|exact H|].
+  - pose proof (letter_mono k1 k2 H H2). lia.
+  - pose proof (letter_mono k2 k1 H H1). lia.
+Qed.
+
+Lemma letters_of_app a b : letters_of (a ++ b) = letters_of a ++ letters_of b.
+Proof. unfold letters_of. rewrite map_app, concat_app. reflexivity. Qed.
+Lemma letters_of_concat ls : concat (map letters_of ls) = letters_of (concat ls).
+Proof. induction ls as [|l ls IH]; [reflexivity|]. cbn [map concat]. rewrite letters_of_app, IH. reflexivity. Qed.
+
+(* occurrences of a label = occurrences of its letter *)
+Lemma count_letter_enc l k : labels_ok l -> k < 52 ->
+  count (letter k) (letters_of (map nt l)) = count (S k) (map ilab_enc l).
+Proof.
+  intros L Hk. induction l as [|x l IH]; [reflexivity|].
+  cbn [map]. rewrite letters_of_cons. rewrite count_app.
+  rewrite IH by (intros j Hj; apply L; right; exact Hj).
+  destruct x as [j|]; cbn [nt ilab_enc count app].
+  - assert (j < 52) by (apply L; left; reflexivity).
+    destruct (Nat.eqb j k) eqn:E.
+    + apply Nat.eqb_eq in E. subst. rewrite !Nat.eqb_refl. reflexivity.
+    + apply Nat.eqb_neq in E.
+      replace (Nat.eqb (letter j) (letter k)) with false
+        by (symmetry; apply Nat.eqb_neq; intro F; apply E; apply letter_inj; auto).
+      replace (Nat.eqb (S j) (S k)) with false by (symmetry; apply Nat.eqb_neq; lia). reflexivity.
+  - reflexivity.
+Qed.
+Lemma in_letters_nt l c : In c (letters_of (map nt l)) -> exists k, c = letter k /\ In (IL k) l.
+Proof.
+  induction l as [|x l IH]; [intros []|]. cbn [map]. rewrite letters_of_cons. intro H.
+  apply in_app_or in H. destruct H as [H|H].
+  - destruct x as [k|]; cbn in H; [|contradiction]. destruct H as [<-|[]]. exists k. split; [reflexivity|left; reflexivity].
+  - destruct (IH H) as [k [E Hk]]. exists k. split; [exact E|right; exact Hk].
+Qed.
+Lemma in_enc l n : In n (map ilab_enc l) -> n <> 0 -> exists k, n = S k /\ In (IL k) l.
+Proof.
+  intros H Hn. apply in_map_iff in H. destruct H as [x [E Hx]]. destruct x as [k|]; cbn in E; [|lia].
+  exists k. split; [lia|exact Hx].
+Qed.
+
+Lemma nodup_count l : (forall x, count x l <= 1) -> NoDup l.
+Proof.
+  induction l as [|a l IH]; intro H; constructor.
+  - intro Hin. apply count_pos in Hin. specialize (H a). cbn in H. rewrite Nat.eqb_refl in H. lia.
+  - apply IH. intro x. specialize (H x). cbn in H. lia.
+Qed.
+Lemma once_first_seen_nodup l : NoDup (once_first_seen l).
+Proof.
+  apply nodup_count. intro x. unfold once_first_seen. rewrite count_filter.
+  destruct (Nat.eqb (count x l) 1) eqn:E; [apply Nat.eqb_eq in E|]; lia.
+Qed.
+
+Lemma sorted_map_mono (g : nat -> nat) l : StronglySorted lt l ->
+  (forall a b, In a l -> In b l -> a < b -> g a < g b) -> StronglySorted lt (map g l).
+Proof.
+  induction 1 as [|a l Hs IH Hall]; intro Hg; cbn; constructor.
+  - apply IH. intros; apply Hg; auto; right; assumption.
+  - rewrite Forall_forall in *. intros y Hy. apply in_map_iff in Hy. destruct Hy as [b [<- Hb]].
+    apply Hg; [left; reflexivity|right; exact Hb|apply Hall; exact Hb].
+Qed.
+
+Lemma existsb_ell_nt inputs :
+  existsb (existsb is_ell) (map (map nt) inputs) = existsb (existsb (ilab_eqb IE)) inputs.
+Proof.
+  induction inputs as [|t r IH]; [reflexivity|]. cbn [map existsb]. rewrite IH. f_equal.
+  induction t as [|x t IHt]; [reflexivity|]. cbn [map existsb]. rewrite IHt. destruct x; reflexivity.
+Qed.
+
+Lemma computed_output_is_numpys inputs : labels_ok (concat inputs) ->
+  map nt (interleaved_sorted_output inputs) = explicit_of_implicit (map (map nt) inputs).
+Proof.
+  intro L. unfold interleaved_sorted_output, explicit_of_implicit.
+  rewrite existsb_ell_nt, !map_app. f_equal; [destruct (existsb _ inputs); reflexivity|].
+  rewrite find_output_from_inputs_spec, <- concat_map.
+  set (l := concat inputs) in *. set (flat := map ilab_enc l).
+  set (named := sort_nat (filter (fun n => negb (Nat.eqb n 0)) (once_first_seen flat))).
+  rewrite letters_of_concat, <- concat_map. fold l.
+  set (all := letters_of (map nt l)).
+  assert (Hin : forall n, In n named <-> n <> 0 /\ count n flat = 1).
+  { intro n. unfold named. rewrite sort_nat_in, filter_In. unfold once_first_seen. rewrite filter_In.
+    rewrite negb_true_iff, Nat.eqb_neq, Nat.eqb_eq. split; [tauto|]. intros [A B]. repeat split; auto.
+    apply count_pos. lia. }
+  assert (Hk : forall n, In n named -> exists k, n = S k /\ In (IL k) l /\ k < 52).
+  { intros n Hn. apply Hin in Hn. destruct Hn as [A B].
+    destruct (in_enc l n) as [k [E Hk]]; [apply count_pos; fold flat; lia|exact A|].
+    exists k. repeat split; auto. }
+  assert (Hs : StronglySorted lt named).
+  { unfold named. apply sorted_le_nodup_lt; [apply sort_nat_sorted|].
+    eapply Permutation_NoDup; [symmetry; apply sort_nat_perm|]. apply NoDup_filter, once_first_seen_nodup. }
+  (* the two lists of tokens are TL of the same strictly increasing list of letters *)
+  assert (E : map (fun n => letter (n - 1)) named = once_sorted all).
+  { apply sorted_lt_unique.
+    - apply sorted_map_mono; [exact Hs|]. intros a b Ha Hb Hab.
+      destruct (Hk a Ha) as [ka [-> [_ Hka]]]. destruct (Hk b Hb) as [kb [-> [_ Hkb]]].
+      cbn. rewrite !Nat.sub_0_r. apply letter_mono; lia.
+    - apply once_sorted_sorted.
+    - intro c. rewrite once_sorted_in, in_map_iff. split.
+      + intros [n [<- Hn]]. destruct (Hk n Hn) as [k [-> [Hkl Hk52]]]. cbn. rewrite Nat.sub_0_r.
+        unfold all. rewrite (count_letter_enc l k L Hk52). apply Hin in Hn. fold flat. tauto.
+      + intro Hc. assert (Hca : In c all) by (apply count_pos; lia).
+        destruct (in_letters_nt l c Hca) as [k [-> Hkl]]. assert (Hk52 : k < 52) by (apply L; exact Hkl).
+        exists (S k). split; [cbn; rewrite Nat.sub_0_r; reflexivity|]. apply Hin. split; [lia|].
+        unfold all in Hc. rewrite (count_letter_enc l k L Hk52) in Hc. exact Hc. }
+  rewrite <- E. rewrite !map_map. apply map_ext_in. intros n Hn.
+  destruct (Hk n Hn) as [k [-> _]]. cbn. rewrite Nat.sub_0_r. reflexivity.
+Qed.
+
+(* --- assembling the interleaved theorem --- *)
+Definition decode_letter (c : nat) : nat := if c <? 97 then c - 65 else c - 97 + 26.
+Lemma decode_letter_letter k : k < 52 -> decode_letter (letter k) = k.
+Proof. unfold decode_letter, letter. intro H. destruct (k <? 26) eqn:A; [replace (65 + k <? 97) with true by lia|replace (97 + (k - 26) <? 97) with false by lia]; lia. Qed.
+Lemma letter_eq_bounded k k' : k' < 52 -> letter k = letter k' -> k = k'.
+Proof.
+  intros H' E. destruct (Nat.lt_ge_cases k 52) as [H|H]; [apply letter_inj; assumption|].
+  exfalso. unfold letter in E. destruct (k <? 26) eqn:A; [lia|]. destruct (k' <? 26) eqn:B; lia.
+Qed.
+
+Lemma tau_is_sigma inputs k : k < 52 ->
+  inter_letter_to_sym inputs (letter k) = sigma (get_symbol_map inputs) k.
+Proof.
+  intro H. unfold inter_letter_to_sym, sigma. fold (decode_letter (letter k)).
+  rewrite decode_letter_letter by exact H. reflexivity.
+Qed.
+Lemma mtok_is_tmap inputs l : labels_ok l ->
+  map (mtok (get_symbol_map inputs)) l = map (tmap (inter_letter_to_sym inputs)) (map nt l).
+Proof.
+  intro L. rewrite map_map. apply map_ext_in. intros [k|] Hx; [|reflexivity].
+  cbn [nt tmap mtok]. rewrite tau_is_sigma by (apply L; exact Hx). reflexivity.
+Qed.
+
+Lemma np_core_output_letters ops o shapes r : np_core ops (Some o) shapes = Some r ->
+  forall c, In c (letters_of o) -> In c (concat (map letters_of ops)).
+Proof.
+  unfold np_core. destruct (negb (forallb only_labels ops)); [discriminate|].
+  destruct (negb (only_labels o)); [discriminate|].
+  destruct (np_operands_nb ops shapes); [|discriminate].
+  unfold np_output. destruct (negb (nodupb (letters_of o))); [discriminate|].
+  destruct (forallb (fun c => memb c (concat (map letters_of ops))) (letters_of o)) eqn:E; [|discriminate].
+  intros _ c Hc. rewrite forallb_forall in E. apply memb_In. apply E. exact Hc.
+Qed.
+
+Lemma in_letters_of_nt l k : In (IL k) l -> In (letter k) (letters_of (map nt l)).
+Proof.
+  induction l as [|x l IH]; [intros []|]. cbn [map]. rewrite letters_of_cons. intros [->|H]; apply in_or_app.
+  - left. left. reflexivity.
+  - right. apply IH. exact H.
+Qed.
+
+Lemma existsb_IE_in inputs : existsb (existsb (ilab_eqb IE)) inputs = true -> In IE (concat inputs).
+Proof.
+  intro H. apply existsb_exists in H. destruct H as [t [Ht H]]. apply existsb_exists in H.
+  destruct H as [x [Hx E]]. apply ilab_eqb_eq in E. subst x. apply in_concat. eauto.
+Qed.
+Lemma IE_in_computed_output inputs : In IE (interleaved_sorted_output inputs) -> In IE (concat inputs).
+Proof.
+  unfold interleaved_sorted_output. intro H. apply in_map_iff in H. destruct H as [n [E Hn]].
+  destruct n; [|discriminate]. apply in_app_or in Hn. destruct Hn as [Hn|Hn].
+  - destruct (existsb (existsb (ilab_eqb IE)) inputs) eqn:B; [apply existsb_IE_in; exact B|destruct Hn].
+  - apply (proj1 (sort_nat_in _ _)) in Hn. apply filter_In in Hn. destruct Hn as [_ Hn]. discriminate.
+Qed.
+
+Lemma rho_args_inter ops out E l :
+  rho_args (AInter ops out) E l = rho E (lmap (inter_letter_to_sym (map snd ops)) l).
+Proof. destruct l; reflexivity. Qed.
+
+Lemma mtok_not_sep m x : is_arrow (mtok m x) = false /\ is_comma (mtok m x) = false.
+Proof. destruct x; split; reflexivity. Qed.
+
+Theorem inter_matches_numpy ops out nops nout :
+  np_parse_inter ops out = Some (nops, nout) ->
+  (match out with Some o => In IE o -> In IE (concat (map snd ops)) | None => True end) ->
+  exists eq, convert_from_interleaved_v true (map snd ops) out = Some eq /\
+    let E := model_ellipses_inds eq (map fst ops) in
+    let r := rho_args (AInter ops out) E in
+    parse_equation_ellipses_v true eq (map fst ops) = Some (map (map r) nops, map r nout).
+Proof.
+  unfold np_parse_inter. destruct (Nat.eqb (length ops) 0) eqn:Elen; [discriminate|].
+  apply Nat.eqb_neq in Elen.
+  set (inputs := map snd ops). set (shapes := map fst ops).
+  destruct (np_sublists inputs) as [nts|] eqn:Ens; [|discriminate].
+  destruct (np_sublists_spec _ _ Ens) as [-> L].
+  (* the effective output sublist and numpy's verdict on it *)
+  intros Hnp HIE.
+  assert (Heff : exists o_eff,
+    (match out with Some o => Some o | None => Some (interleaved_sorted_output inputs) end) = Some o_eff /\
+    np_core (map (map nt) inputs) (Some (map nt o_eff)) shapes = Some (nops, nout) /\
+    (In IE o_eff -> In IE (concat inputs))).
+  { destruct out as [o|].
+    - destruct (np_sublist o) as [ot|] eqn:Eo; [|discriminate].
+      destruct (np_sublist_spec _ _ Eo) as [-> _]. exists o. auto.
+    - exists (interleaved_sorted_output inputs). split; [reflexivity|]. split.
+      + rewrite (computed_output_is_numpys inputs L). apply np_core_implicit_explicit. exact Hnp.
+      + apply IE_in_computed_output. }
+  destruct Heff as [o_eff [Eeff [Hcore HIE']]]. clear Hnp HIE.
+  set (sm := get_symbol_map inputs).
+  destruct (get_symbol_map_spec inputs) as [c [W K]]. fold sm in W, K.
+  (* every label of the output is known to the symbol map, and is below 52 *)
+  assert (Hout : forall x, In x o_eff -> In x (map fst sm) /\ match x with IL k => k < 52 | IE => True end).
+  { intros [k|] Hx.
+    - pose proof (np_core_output_letters _ _ _ _ Hcore (letter k) (in_letters_of_nt o_eff k Hx)) as Hc.
+      rewrite letters_of_concat, <- concat_map in Hc.
+      destruct (in_letters_nt _ _ Hc) as [k' [E Hk']].
+      assert (k' < 52) by (apply L; exact Hk'). apply letter_eq_bounded in E; [|assumption]. subst k'.
+      split; [apply K; exact Hk'|assumption].
+    - split; [apply K, HIE'; exact Hx|exact I]. }
+  assert (Lo : labels_ok o_eff) by (intros k Hk; apply (Hout (IL k) Hk)).
+  (* the equation string the model builds *)
+  set (mops := map (map (mtok sm)) inputs). set (mo := map (mtok sm) o_eff).
+  assert (Econv : convert_from_interleaved_v true inputs out = Some (unlex (tjoin mops ++ TArrow :: mo))).
+  { unfold convert_from_interleaved_v. fold sm.
+    rewrite (sm_terms_unlex sm c inputs W) by (intros x Hx; apply K; exact Hx). fold mops.
+    rewrite Eeff. rewrite (sm_term_unlex sm c o_eff W) by (intros x Hx; apply Hout; exact Hx). fold mo.
+    rewrite unlex_app, unlex_cons, unlex_tjoin. reflexivity. }
+  exists (unlex (tjoin mops ++ TArrow :: mo)). split; [exact Econv|].
+  (* token facts *)
+  assert (Kops : forall p t, In p mops -> In t p -> tok_ok t /\ is_arrow t = false /\ is_comma t = false).
+  { intros p t Hp Ht. unfold mops in Hp. apply in_map_iff in Hp. destruct Hp as [term [<- Hterm]].
+    apply in_map_iff in Ht. destruct Ht as [x [<- Hx]]. split; [|apply mtok_not_sep].
+    apply (mtok_ok sm c x W). apply K. apply in_concat. eauto. }
+  assert (Kmo : Forall tok_ok mo /\ forall t, In t mo -> is_arrow t = false).
+  { split; [apply Forall_forall|]; intros t Ht; unfold mo in Ht; apply in_map_iff in Ht;
+      destruct Ht as [x [<- Hx]]; [apply (mtok_ok sm c x W), Hout, Hx|apply mtok_not_sep]. }
+  assert (Klhs : Forall tok_ok (tjoin mops) /\ Forall lhs_tok (tjoin mops)).
+  { clear - Kops. induction mops as [|p [|q r] IH].
+    - split; constructor.
+    - cbn [tjoin]. split; apply Forall_forall; intros t Ht; destruct (Kops p t (or_introl eq_refl) Ht) as [A [B _]]; [exact A|].
+      destruct t; try exact I. discriminate B.
+    - change (tjoin (p :: q :: r)) with (p ++ TComma :: tjoin (q :: r)).
+      destruct IH as [I1 I2]; [intros; apply (Kops p0 t); [right|]; assumption|].
+      split; apply Forall_app; split; try (constructor; [exact I|assumption]);
+        apply Forall_forall; intros t Ht; destruct (Kops p t (or_introl eq_refl) Ht) as [A [B _]]; [exact A|].
+      destruct t; try exact I. discriminate B. }
+  destruct Klhs as [Klhs1 Klhs2]. destruct Kmo as [Kmo1 Kmo2].
+  assert (Hne : mops <> []).
+  { unfold mops, inputs. destruct ops; [cbn in Elen; lia|discriminate]. }
+  assert (Hsplit : tsplit is_comma (tjoin mops) = mops).
+  { apply tsplit_tjoin; [exact Hne|]. intros p t Hp Ht. apply (Kops p t Hp Ht). }
+  (* numpy's verdict on the model's tokens *)
+  set (tau := inter_letter_to_sym inputs).
+  assert (Hmops : mops = map (map (tmap tau)) (map (map nt) inputs)).
+  { unfold mops. rewrite map_map. apply map_ext_in. intros term Hterm.
+    apply mtok_is_tmap. intros k Hk. apply L. apply in_concat. eauto. }
+  assert (Hmo : mo = map (tmap tau) (map nt o_eff)) by (apply mtok_is_tmap; exact Lo).
+  assert (Hinj : forall x y, In x (concat (map letters_of (map (map nt) inputs))) ->
+                             In y (concat (map letters_of (map (map nt) inputs))) -> tau x = tau y -> x = y).
+  { intros x y Hx Hy. rewrite letters_of_concat, <- concat_map in Hx, Hy.
+    destruct (in_letters_nt _ _ Hx) as [k1 [-> H1]]. destruct (in_letters_nt _ _ Hy) as [k2 [-> H2]].
+    unfold tau. rewrite !tau_is_sigma by (apply L; assumption). intro E. f_equal.
+    apply (sigma_inj sm c); auto; apply K; assumption. }
+  pose proof (np_core_relabel tau _ _ _ _ _ Hinj Hcore) as Hcore'.
+  rewrite <- Hmops, <- Hmo, <- Hsplit in Hcore'.
+  (* run the model's parser on the string *)
+  assert (Ktoks : Forall tok_ok (tjoin mops ++ TArrow :: mo)).
+  { apply Forall_app. split; [exact Klhs1|constructor; [exact I|exact Kmo1]]. }
+  assert (Hsa : tsplit is_arrow (tjoin mops ++ TArrow :: mo) = [tjoin mops; mo]).
+  { rewrite tsplit_app_sep; [|intros t Ht; rewrite Forall_forall in Klhs2; specialize (Klhs2 t Ht); destruct t; try reflexivity; contradiction|reflexivity].
+    rewrite tsplit_nosep by exact Kmo2. reflexivity. }
+  cbn zeta. unfold parse_equation_ellipses_v, model_ellipses_inds.
+  rewrite (split_arrow_unlex _ Ktoks), Hsa. cbn [map hd tl].
+  pose proof (core_matches_numpy (tjoin mops) (Some mo) shapes _ _ Klhs1 Klhs2 Kmo1 Hcore') as HC.
+  cbn zeta in HC. fold shapes.
+  etransitivity; [exact HC|]. f_equal. f_equal.
+  - rewrite map_map. apply map_ext. intro t. rewrite map_map. apply map_ext. intro l0.
+    symmetry. apply rho_args_inter.
+  - rewrite map_map. apply map_ext. intro l0. symmetry. apply rho_args_inter.
+Qed.
+
+Theorem inter_agrees_with_numpy fx ops out :
+  fx_inter fx = true -> fx_outell fx = true ->
+  (match out with Some o => In IE o -> In IE (concat (map snd ops)) | None => True end) ->
+  agrees_args_v fx (AInter ops out) = match np_parse_inter ops out with Some _ => Some true | None => None end.
+Proof.
+  intros F1 F2 HIE. unfold agrees_args_v. cbn [np_parse_args einsum_eq_v eargs_shapes]. rewrite F1, F2.
+  destruct (np_parse_inter ops out) as [[nops nout]|] eqn:P; [|reflexivity].
+  destruct (inter_matches_numpy ops out nops nout P HIE) as [eq [E1 E2]]. cbn zeta in E2.
+  rewrite E1, E2, ops_eqb_refl. reflexivity.
+Qed.
+
 (* ------------------------------------------------------------------ *)
 (* bounded exhaustive comparison of the model with NumpySpec (vm_compute) *)
 Definition sweep_pres : list (list nat) := [[]; [98]; [66]; [98; 66]].
@@ -803,3 +2164,275 @@ Lemma fixes_repair_witnesses :
   front_out_shape_v all_fixes (AInter [([4;2]%Z, [IL 5; IL 1]); ([2;3]%Z, [IL 1; IL 2])] None) = Some [3;4]%Z /\
   agrees_args_v all_fixes (AStr [97;98;45;62;46;46;46;97;98] [[2;3]]%Z) = Some true.
 Proof. vm_compute. auto. Qed.
+
+From Ctg Require Import Net Einsum SumOver.
+Open Scope nat_scope.
+
+(* ================================================================== *)
+(* VALUE invariance of einsum under an injective relabelling            *)
+
+Lemma sum_over_agree size D js : forall e1 e2 (G : env -> Z),
+  (forall a b, agree_on D a b -> G a = G b) -> agree_on D e1 e2 ->
+  sum_over size js e1 G = sum_over size js e2 G.
+Proof.
+  induction js as [|j js IH]; intros e1 e2 G HG He; cbn; [apply HG, He|].
+  apply sumn_ext. intros v _. apply IH; [exact HG|].
+  intros k Hk. unfold upd. destruct (Nat.eqb k j); [reflexivity|apply He, Hk].
+Qed.
+
+Lemma sum_over_relabel f size size' D js : forall e' (G : env -> Z),
+  inj_on f D -> incl js D -> (forall j, In j js -> size' (f j) = size j) ->
+  (forall a b, agree_on D a b -> G a = G b) ->
+  sum_over size' (map f js) e' (fun e'' => G (fun j => e'' (f j))) =
+  sum_over size js (fun j => e' (f j)) G.
+Proof.
+  intros e' G Hinj. revert e'. induction js as [|j js IH]; intros e' Hincl Hsz HG; cbn; [reflexivity|].
+  rewrite (Hsz j (or_introl eq_refl)). apply sumn_ext. intros v _.
+  rewrite IH; [|intros x Hx; apply Hincl; right; exact Hx|intros x Hx; apply Hsz; right; exact Hx|exact HG].
+  apply (sum_over_agree size D); [exact HG|].
+  intros k Hk. unfold upd.
+  destruct (Nat.eqb k j) eqn:E.
+  - apply Nat.eqb_eq in E. subst. rewrite Nat.eqb_refl. reflexivity.
+  - replace (Nat.eqb (f k) (f j)) with false; [reflexivity|].
+    symmetry. apply Nat.eqb_neq. intro Hf. apply Nat.eqb_neq in E. apply E.
+    apply Hinj; [exact Hk|apply Hincl; left; reflexivity|exact Hf].
+Qed.
+
+Lemma nodup_map_inj f l : inj_on f l -> nodup Nat.eq_dec (map f l) = map f (nodup Nat.eq_dec l).
+Proof.
+  induction l as [|x l IH]; intro H; [reflexivity|]. cbn [map nodup].
+  assert (Hl : inj_on f l) by (intros a b Ha Hb; apply H; right; assumption).
+  destruct (in_dec Nat.eq_dec (f x) (map f l)) as [I1|I1], (in_dec Nat.eq_dec x l) as [I2|I2].
+  - apply IH, Hl.
+  - exfalso. apply in_map_iff in I1. destruct I1 as [y [E Hy]]. apply I2.
+    rewrite <- (H y x (or_intror Hy) (or_introl eq_refl) E). exact Hy.
+  - exfalso. apply I1. apply in_map. exact I2.
+  - cbn [map]. f_equal. apply IH, Hl.
+Qed.
+
+Lemma filter_map_comm {A B} (P : B -> bool) (g : A -> B) l : filter P (map g l) = map g (filter (fun x => P (g x)) l).
+Proof. induction l as [|x l IH]; cbn; [reflexivity|]. destruct (P (g x)); cbn; rewrite IH; reflexivity. Qed.
+
+Lemma zget_relabel f sd j : inj_on f (j :: map fst sd) -> zget (f j) (relabel_sizes f sd) = zget j sd.
+Proof.
+  induction sd as [|[k v] sd IH]; intro H; [reflexivity|]. cbn [relabel_sizes map fst snd zget].
+  destruct (Nat.eqb k j) eqn:E.
+  - apply Nat.eqb_eq in E. subst. rewrite Nat.eqb_refl. reflexivity.
+  - replace (Nat.eqb (f k) (f j)) with false.
+    + apply IH. intros a b Ha Hb. apply H; cbn in *; tauto.
+    + symmetry. apply Nat.eqb_neq. intro Hf. apply Nat.eqb_neq in E. apply E.
+      apply H; cbn; auto.
+Qed.
+
+Theorem einsum_relabel_invariant f n (arr : nat -> ptensor) e' :
+  inj_on f (net_labels n) ->
+  einsum_spec (relabel_net f n) [] arr e' = einsum_spec n [] arr (fun j => e' (f j)).
+Proof.
+  intro Hinj. unfold einsum_spec.
+  set (D := net_labels n).
+  assert (Hin_inputs : incl (concat (inputs n)) D) by (intros x Hx; unfold D, net_labels; apply in_or_app; left; exact Hx).
+  assert (Hin_out : incl (output n) D) by (intros x Hx; unfold D, net_labels; apply in_or_app; right; apply in_or_app; left; exact Hx).
+  assert (Hin_keys : incl (map fst (szd n)) D) by (intros x Hx; unfold D, net_labels; apply in_or_app; right; apply in_or_app; right; exact Hx).
+  (* the summed indices *)
+  assert (Hall : all_ix (relabel_net f n) = map f (all_ix n)).
+  { unfold all_ix. cbn [inputs relabel_net]. rewrite <- concat_map. apply nodup_map_inj.
+    intros a b Ha Hb. apply Hinj; apply Hin_inputs; assumption. }
+  assert (Hinner : inner (relabel_net f n) [] = map f (inner n [])).
+  { unfold inner. rewrite Hall, filter_map_comm. f_equal. apply filter_ext_in. intros j Hj.
+    unfold all_ix in Hj. apply nodup_In in Hj. cbn [removed map memb existsb negb andb output relabel_net].
+    f_equal. apply memb_map_inj. intros y Hy E. apply Hinj; [apply Hin_out; exact Hy|apply Hin_inputs; exact Hj|exact E]. }
+  rewrite Hinner.
+  (* the summand *)
+  assert (HNN : NN (relabel_net f n) = NN n) by (unfold NN; cbn; apply map_length).
+  rewrite HNN.
+  assert (Hprod : forall S e'', prodF (relabel_net f n) arr S e'' = prodF n arr S (fun j => e'' (f j))).
+  { induction S as [|k S IH]; intro e''; [reflexivity|]. cbn [prodF]. rewrite IH. f_equal.
+    unfold F. cbn [inputs relabel_net]. f_equal.
+    change (@nil ix) with (map f []) at 1. rewrite map_nth, map_map. reflexivity. }
+  rewrite (sum_over_ext (dim (relabel_net f n)) (map f (inner n [])) e' _ _ (Hprod (seq 0 (NN n)))).
+  apply (sum_over_relabel f (dim n) (dim (relabel_net f n)) D).
+  - exact Hinj.
+  - intros j Hj. unfold inner in Hj. apply filter_In in Hj. destruct Hj as [Hj _].
+    unfold all_ix in Hj. apply nodup_In in Hj. apply Hin_inputs. exact Hj.
+  - intros j Hj. unfold dim. cbn [szd relabel_net]. f_equal. apply zget_relabel.
+    assert (In j D).
+    { unfold inner in Hj. apply filter_In in Hj. destruct Hj as [Hj _].
+      unfold all_ix in Hj. apply nodup_In in Hj. apply Hin_inputs. exact Hj. }
+    intros a b Ha Hb. apply Hinj; [destruct Ha as [<-|Ha]; [assumption|apply Hin_keys; exact Ha]|
+                                   destruct Hb as [<-|Hb]; [assumption|apply Hin_keys; exact Hb]].
+  - intros a b Hab. induction (seq 0 (NN n)) as [|k S IH]; [reflexivity|]. cbn [prodF]. rewrite IH. f_equal.
+    unfold F. f_equal. apply map_ext_in. intros j Hj. apply Hab. apply Hin_inputs.
+    destruct (Nat.lt_ge_cases k (length (inputs n))) as [Hk|Hk].
+    + apply in_concat. exists (nth k (inputs n) []). split; [apply nth_In; exact Hk|exact Hj].
+    + rewrite nth_overflow in Hj by exact Hk. destruct Hj.
+Qed.
+
+(* --- canonicalize_inputs produces exactly the relabelled network --- *)
+Lemma zset_keys j v d x : In x (map fst (zset j v d)) -> x = j \/ In x (map fst d).
+Proof.
+  induction d as [|[k w] d IH]; cbn; [intros [<-|[]]; auto|].
+  destruct (Nat.eqb k j) eqn:E; cbn; [intros [<-|H]; auto|].
+  intros [<-|H]; [auto|]. destruct (IH H); auto.
+Qed.
+Lemma zset_relabel f j v d : inj_on f (j :: map fst d) ->
+  zset (f j) v (relabel_sizes f d) = relabel_sizes f (zset j v d).
+Proof.
+  induction d as [|[k w] d IH]; intro H; [reflexivity|]. cbn [relabel_sizes map fst snd zset].
+  destruct (Nat.eqb k j) eqn:E.
+  - apply Nat.eqb_eq in E. subst. rewrite Nat.eqb_refl. reflexivity.
+  - replace (Nat.eqb (f k) (f j)) with false.
+    + cbn [map fst snd]. f_equal. apply IH. intros a b Ha Hb. apply H; cbn in *; tauto.
+    + symmetry. apply Nat.eqb_neq. intro Hf. apply Nat.eqb_neq in E. apply E. apply H; cbn; auto.
+Qed.
+
+Lemma fold_zset_relabel f items : forall acc,
+  inj_on f (map fst items ++ map fst acc) ->
+  fold_left (fun a xd => zset (f (fst xd)) (snd xd) a) items (relabel_sizes f acc) =
+  relabel_sizes f (fold_left (fun a xd => zset (fst xd) (snd xd) a) items acc).
+Proof.
+  induction items as [|[j v] items IH]; intros acc H; [reflexivity|]. cbn [fold_left fst snd].
+  rewrite zset_relabel by (intros a b Ha Hb; apply H; cbn in *; rewrite in_app_iff; tauto).
+  apply IH. intros a b Ha Hb. apply H; cbn; rewrite in_app_iff in *;
+    [destruct Ha as [Ha|Ha]; [tauto|destruct (zset_keys _ _ _ _ Ha); [subst; tauto|tauto]]|
+     destruct Hb as [Hb|Hb]; [tauto|destruct (zset_keys _ _ _ _ Hb); [subst; tauto|tauto]]].
+Qed.
+
+Lemma combine_map_l {A B C} (g : A -> C) (l : list A) (l' : list B) :
+  combine (map g l) l' = map (fun p => (g (fst p), snd p)) (combine l l').
+Proof. revert l'. induction l as [|x l IH]; intros [|y l']; cbn; try reflexivity. rewrite IH. reflexivity. Qed.
+
+Lemma sizes_from_shapes_relabel f ins : forall shapes,
+  inj_on f (concat ins) ->
+  sizes_from_shapes (map (map f) ins) shapes = relabel_sizes f (sizes_from_shapes ins shapes).
+Proof.
+  unfold sizes_from_shapes. intros shapes H.
+  assert (G : forall ins0 shapes0 acc, incl (concat ins0) (concat ins) -> incl (map fst acc) (concat ins) ->
+    fold_left (fun acc0 ts => fold_left (fun acc' xd => zset (fst xd) (snd xd) acc') (combine (fst ts) (snd ts)) acc0)
+              (combine (map (map f) ins0) shapes0) (relabel_sizes f acc) =
+    relabel_sizes f (fold_left (fun acc0 ts => fold_left (fun acc' xd => zset (fst xd) (snd xd) acc') (combine (fst ts) (snd ts)) acc0)
+              (combine ins0 shapes0) acc) /\ True).
+  { induction ins0 as [|t ins0 IH]; intros shapes0 acc Hi Ha; [split; reflexivity|].
+    destruct shapes0 as [|sh shapes0]; [split; reflexivity|]. cbn [map combine fold_left fst snd].
+    rewrite (combine_map_l f t sh).
+    assert (E : forall (l : list (nat * Z)) (a : sizes),
+      fold_left (fun acc' xd => zset (fst xd) (snd xd) acc') (map (fun p => (f (fst p), snd p)) l) a =
+      fold_left (fun a0 xd => zset (f (fst xd)) (snd xd) a0) l a).
+    { intro l. induction l as [|p l IHl]; intro a; [reflexivity|]. cbn. apply IHl. }
+    rewrite E.
+    assert (Hk : incl (map fst (combine t sh)) (concat ins)).
+    { intros x Hx. apply in_map_iff in Hx. destruct Hx as [[a b] [<- Hab]]. apply in_combine_l in Hab.
+      apply Hi. cbn. apply in_or_app. left. exact Hab. }
+    rewrite fold_zset_relabel.
+    2:{ intros a b Ha' Hb'. apply H; rewrite in_app_iff in *; [destruct Ha'|destruct Hb']; auto. }
+    apply IH; [intros x Hx; apply Hi; cbn; apply in_or_app; right; exact Hx|].
+    (* keys of the new accumulator *)
+    clear - Ha Hk. revert acc Ha. induction (combine t sh) as [|[j v] l IHl]; intros acc Ha; [exact Ha|].
+    cbn [fold_left fst snd]. apply IHl; [intros x Hx; apply Hk; right; exact Hx|].
+    intros x Hx. destruct (zset_keys _ _ _ _ Hx) as [->|Hx']; [apply Hk; left; reflexivity|apply Ha; exact Hx']. }
+  exact (proj1 (G ins shapes [] (incl_refl _) (fun x (Hx : In x []) => match Hx with end))).
+Qed.
+
+Lemma fold_zset_nodup items : forall acc, NoDup (map fst acc ++ map fst items) ->
+  fold_left (fun a xd => zset (fst xd) (snd xd) a) items acc = acc ++ items.
+Proof.
+  induction items as [|[j v] items IH]; intros acc H; [rewrite app_nil_r; reflexivity|].
+  cbn [fold_left fst snd].
+  assert (Hz : zset j v acc = acc ++ [(j, v)]).
+  { assert (Hn : ~ In j (map fst acc)).
+    { apply NoDup_remove_2 in H. intro Hj. apply H. apply in_or_app. left. exact Hj. }
+    clear - Hn. induction acc as [|[k w] acc IHa]; [reflexivity|]. cbn.
+    destruct (Nat.eqb k j) eqn:E; [apply Nat.eqb_eq in E; subst; exfalso; apply Hn; left; reflexivity|].
+    f_equal. apply IHa. intro; apply Hn; right; assumption. }
+  rewrite Hz, IH; [rewrite <- app_assoc; reflexivity|].
+  rewrite map_app, <- app_assoc. exact H.
+Qed.
+
+Lemma im_sizes_fold sd : forall m acc m' s, im_wf m -> im_sizes m sd acc = (m', s) ->
+  s = fold_left (fun a xd => zset (im_fun m' (fst xd)) (snd xd) a) sd acc.
+Proof.
+  induction sd as [|[k d] r IH]; intros m acc m' s W; cbn [im_sizes fold_left fst snd].
+  - intro H; inversion H; reflexivity.
+  - destruct (im_get m k) as [m1 s1] eqn:G. intro H.
+    destruct (im_get_spec _ _ _ _ W G) as [W1 [_ L1]].
+    destruct (im_sizes_spec _ _ _ _ _ W1 H) as [_ [[e2 E2] _]].
+    rewrite (IH _ _ _ _ W1 H). f_equal. f_equal. unfold im_fun. rewrite E2, (im_look_app _ _ _ _ L1). reflexivity.
+Qed.
+
+
+Theorem canonicalize_is_relabel_net ins0 out0 shapes sd ni no nsd m :
+  canonicalize_inputs ins0 out0 shapes sd = (ni, no, Some nsd, m) ->
+  (match sd with Some sdv => NoDup (map fst sdv) | None => True end) ->
+  mkNet ni no nsd = relabel_net (im_fun m) (original_net ins0 out0 shapes sd) /\
+  inj_on (im_fun m) (net_labels (original_net ins0 out0 shapes sd)).
+Proof.
+  intros HC Hnd.
+  destruct (canonicalize_relabels _ _ _ _ _ _ _ _ HC) as [W [Hni [Hdom [Hno [Hsd Hinj]]]]].
+  (* the size dictionary *)
+  assert (Hs : nsd = relabel_sizes (im_fun m) (szd (original_net ins0 out0 shapes sd)) /\
+               incl (map fst (szd (original_net ins0 out0 shapes sd))) (map fst m)).
+  { revert HC. unfold canonicalize_inputs.
+    destruct (im_terms [] ins0) as [m1 ni1] eqn:T1.
+    destruct (im_terms_spec _ _ _ _ im_wf_nil T1) as [W1 [_ [S1 D1]]].
+    assert (R2 : exists m2 no2, (match out0 with Some o => im_term m1 o | None => (m1, find_output_from_inputs ni1) end) = (m2, no2)
+                 /\ im_wf m2 /\ exists e2, m2 = m1 ++ e2).
+    { destruct out0 as [o|].
+      - destruct (im_term m1 o) as [m2 no2] eqn:T2. destruct (im_term_spec _ _ _ _ W1 T2) as [W2 [X _]]. eauto.
+      - exists m1, (find_output_from_inputs ni1). split; [reflexivity|]. split; [exact W1|exists []; rewrite app_nil_r; reflexivity]. }
+    destruct R2 as [m2 [no2 [R2 [W2 [e2 E2]]]]]. rewrite R2.
+    unfold original_net. cbn [szd].
+    destruct sd as [sdv|].
+    - destruct (im_sizes m2 sdv []) as [m3 s3] eqn:T3. intro H. injection H as _ _ Hs Hm. subst m3 s3.
+      destruct (im_sizes_spec _ _ _ _ _ W2 T3) as [_ [_ D3]].
+      split; [|intros x Hx; apply D3; exact Hx].
+      rewrite (im_sizes_fold _ _ _ _ _ W2 T3).
+      etransitivity; [apply (fold_zset_relabel (im_fun m) sdv []); cbn; rewrite app_nil_r;
+                      intros a b Ha Hb; apply Hinj; apply D3; assumption|].
+      rewrite fold_zset_nodup by exact Hnd. reflexivity.
+    - destruct shapes as [shs|]; intro H; [|discriminate H].
+      injection H as Hn _ Hs Hm.
+      split.
+      + rewrite <- Hs, Hn, Hni. apply sizes_from_shapes_relabel.
+        intros a b Ha Hb. apply Hinj; apply Hdom; assumption.
+      + intros x Hx. apply in_map_iff in Hx. destruct Hx as [[a b] [<- Hab]].
+        apply Hdom. clear - Hab. unfold sizes_from_shapes in Hab.
+        assert (G : forall insx shapes0 (acc : sizes), In (a, b) (fold_left (fun acc0 ts => fold_left (fun acc' xd => zset (fst xd) (snd xd) acc') (combine (fst ts) (snd ts)) acc0) (combine insx shapes0) acc) ->
+                   In a (map fst acc) \/ In a (concat insx)).
+        { induction insx as [|t insx IH]; intros shapes0 acc H; [left; apply in_map_iff; exists (a, b); auto|].
+          destruct shapes0 as [|sh shapes0]; [left; apply in_map_iff; exists (a, b); auto|].
+          cbn [combine fold_left fst snd] in H. destruct (IH _ _ H) as [H1|H1]; [|right; cbn; apply in_or_app; right; exact H1].
+          assert (G2 : forall l (acc0 : sizes), In a (map fst (fold_left (fun acc' xd => zset (fst xd) (snd xd) acc') l acc0)) ->
+                       In a (map fst acc0) \/ In a (map fst l)).
+          { induction l as [|[j v] l IHl]; intros acc0 H0; [left; exact H0|]. cbn [fold_left fst snd] in H0.
+            destruct (IHl _ H0) as [H2|H2]; [|right; right; exact H2].
+            destruct (zset_keys _ _ _ _ H2) as [->|H3]; [right; left; reflexivity|left; exact H3]. }
+          destruct (G2 _ _ H1) as [H2|H2]; [left; exact H2|right].
+          cbn. apply in_or_app. left. apply in_map_iff in H2. destruct H2 as [[x y] [<- Hxy]].
+          apply in_combine_l in Hxy. exact Hxy. }
+        destruct (G _ _ _ Hab) as [[]|H]; exact H. }
+  destruct Hs as [Hs Hkeys].
+  split.
+  - unfold relabel_net, original_net in *. cbn [inputs output szd] in *. rewrite Hni, Hs. f_equal.
+    destruct out0 as [o|]; [apply Hno|exact Hno].
+  - intros a b Ha Hb. apply Hinj.
+    + unfold net_labels, original_net in Ha. cbn [inputs output szd] in Ha.
+      apply in_app_or in Ha. destruct Ha as [Ha|Ha]; [apply Hdom; exact Ha|].
+      apply in_app_or in Ha. destruct Ha as [Ha|Ha]; [|apply Hkeys; exact Ha].
+      destruct out0 as [o|]; [apply Hno; exact Ha|].
+      apply Hdom. rewrite find_output_from_inputs_spec in Ha. unfold once_first_seen in Ha. apply filter_In in Ha. tauto.
+    + unfold net_labels, original_net in Hb. cbn [inputs output szd] in Hb.
+      apply in_app_or in Hb. destruct Hb as [Hb|Hb]; [apply Hdom; exact Hb|].
+      apply in_app_or in Hb. destruct Hb as [Hb|Hb]; [|apply Hkeys; exact Hb].
+      destruct out0 as [o|]; [apply Hno; exact Hb|].
+      apply Hdom. rewrite find_output_from_inputs_spec in Hb. unfold once_first_seen in Hb. apply filter_In in Hb. tauto.
+Qed.
+
+(* the value of the canonicalised contraction IS the value of the contraction that was asked for *)
+Theorem canonicalize_value_invariant ins0 out0 shapes sd ni no nsd m (arr : nat -> ptensor) e' :
+  canonicalize_inputs ins0 out0 shapes sd = (ni, no, Some nsd, m) ->
+  (match sd with Some sdv => NoDup (map fst sdv) | None => True end) ->
+  einsum_spec (mkNet ni no nsd) [] arr e' =
+  einsum_spec (original_net ins0 out0 shapes sd) [] arr (fun j => e' (im_fun m j)).
+Proof.
+  intros HC Hnd. destruct (canonicalize_is_relabel_net _ _ _ _ _ _ _ _ HC Hnd) as [E Hinj].
+  rewrite E. apply einsum_relabel_invariant. exact Hinj.
+Qed.
